@@ -11,8 +11,10 @@
     5  `PosInv`  positive weights in queue / clients / worker locals
     6  `IdInv`   fresh ids (counted by `occ`) are distinct, below `nextId`, uncharged before `kw.insert`, and are
                  no thread's handle into `kw` (`usedIds`); `addCharged`
-    7  `SumInv`  `kwNoDup`, `positive`, the accounting identity `sum`, victims in hand, `staleSpace`
-    8  `binv_iff : BInv b ↔ LockF b ∧ PosInv b ∧ IdInv b ∧ SumInv b ∧ maxFixed`, `binv_init`, one lemma per thread
+    7  `KwInv`   `kwNoDup`, `positive`, victims in hand (always);  `AcctInv`  the accounting identity `sum`,
+                 `staleSpace` (while running);  `ShutF`  the shutdown flag;  `GuardInv`  the `get_ref` read guards
+    8  `binv_iff : BInv b ↔ LockF b ∧ PosInv b ∧ IdInv b ∧ KwInv b ∧ (shutting = false → AcctInv b) ∧ maxFixed ∧
+                 ShutF b ∧ GuardInv b`, `binv_init`, one lemma per thread
        (`binv_workerAct`, `binv_sweeperAct`, `binv_clientAct`, `binv_issue`, `binv_consumer`, `binv_advance`),
        `binv_step`, `binv_reach`
 
@@ -23,6 +25,14 @@
                     names it (`freshIds`, the `usedIds` part);
     * `staleSpace`  the free space read at `wu.space` and compared later (`sampleInit`, `fill`) is still available;
     * `sweepEntry`  at `sweep.entry` there is an unvisited entry (else the shard lock would never be dropped).
+
+  Extension (get_ref guards and `shutdown()` at action granularity):
+    * the accounting group `BAcct` (`sum`, `addCharged`, `staleSpace`) is guarded by `b.g.shutting = false`:
+      `shutdown()` clears `key_weights` and zeroes `weight_used` in two separate actions while the worker and the
+      sweeper keep running; the flag is set by the first action of `shutdown()` and never reset
+      (`stepB_shutting_mono`), `shutFlag` records that a shutdown past its CAS has set it;
+    * the lock group is unconditional: no client ever owns `weight_used` across a schedule point;
+    * `guards`: the read guards of `get_ref` (`GuardInv`); `stepB_storeShard`: the shard map never changes.
 -/
 import CachedModel.LayerB
 import CachedProofs.Lemmas.Weights
@@ -33,9 +43,11 @@ namespace B
 
 /-! ## 1  definitions -/
 
-/-- every state some interleaving of clients, worker, sweeper and consumer can reach -/
+/-- every state some interleaving of clients, worker, sweeper and consumer can reach, whatever the (fixed) map of
+    keys to store shards is -/
 inductive Reach (cfg : Cfg) (now : Nat) (seeds : List Nat) (clients : Nat) : BState → Prop where
-  | init : Reach cfg now seeds clients (BState.init cfg now seeds clients)
+  | init (shardMap : List (Nat × Nat)) :
+      Reach cfg now seeds clients { BState.init cfg now seeds clients with storeShard := shardMap }
   | step {b b' : BState} {a : Act} {o o' : Oracle} :
       Reach cfg now seeds clients b → stepB b a o = .ok (b', o') → Reach cfg now seeds clients b'
 
@@ -142,19 +154,37 @@ def WPc.usedId? : WPc → Option Nat
 def usedIds (b : BState) : List Nat :=
   b.g.store.map (·.2.id) ++ b.g.ttl.map (·.1.2) ++ b.sw.ids ++ b.cl.filterMap CPc.usedId? ++ b.w.usedId?.toList
 
-/-- The invariant of Layer B. -/
-structure BInv (b : BState) : Prop where
-  kwNoDup : AMap.NoDup b.g.adm.kw
-  positive : ∀ id wk, b.g.adm.kw.get? id = some wk → 0 < wk.weight
+/-- client positions of `shutdown()` after its compare-and-swap has set the flag -/
+def CPc.afterCas : CPc → Bool
+  | .shutSendCmd | .shutSendBuf | .shutConsumerFlag | .shutTickerFlag | .shutStoreClear | .shutKwClear | .shutWuZero
+  | .shutAfClear | .shutStatsClear | .shutTtlClear => true
+  | _ => false
+
+/-- The ACCOUNTING group of the invariant.  It holds only WHILE THE CACHE IS RUNNING: `shutdown()` is not atomic with
+    respect to the worker (it clears `key_weights`, then zeroes `weight_used`, while the worker may stand between
+    `kw.insert` and `wu.add`, or between a `kw.remove` and its `wu.sub`) — `layerB_accounting_void_after_shutdown`
+    in Theorems.lean is a reachable state in which `sum` and `addCharged` fail.  (`staleSpace` is in the group because
+    its preservation rests on `sum`; no reachable state violating it after a shutdown is known.) -/
+structure BAcct (b : BState) : Prop where
   /-- the accounting identity, modulo the in-flight locals -/
   sum : b.g.adm.used = sumW b.g.adm.kw - pendingAdd b + pendingSub b
-  pendingPos : (∀ c, b.w = .add c → 0 < c.w) ∧
-    (∀ c, b.w = .insert c → 0 < c.w ∧ b.g.adm.kw.get? c.id = none) ∧
-    (∀ wk, b.w.victim? = some wk → 0 < wk.weight) ∧ (∀ wk, b.sw.victim? = some wk → 0 < wk.weight)
   /-- between `kw.insert` and `wu.add` the new id stays charged, at the weight that will be added -/
   addCharged : ∀ c, b.w = .add c → b.g.adm.kw.get? c.id = some { key := c.k, hash := c.hash, weight := c.w }
   /-- a free space read earlier is still available (everybody else only subtracts) -/
   staleSpace : ∀ space, b.w.space? = some space → space ≤ b.g.adm.max - b.g.adm.used
+
+/-- The invariant of Layer B. -/
+structure BInv (b : BState) : Prop where
+  kwNoDup : AMap.NoDup b.g.adm.kw
+  positive : ∀ id wk, b.g.adm.kw.get? id = some wk → 0 < wk.weight
+  /-- the accounting group, guarded by the shutdown flag (set by the FIRST action of `shutdown()`, before anything
+      is cleared, and never reset: `stepB_shutting_mono`) -/
+  acct : b.g.shutting = false → BAcct b
+  pendingPos : (∀ c, b.w = .add c → 0 < c.w) ∧
+    (∀ c, b.w = .insert c → 0 < c.w ∧ b.g.adm.kw.get? c.id = none) ∧
+    (∀ wk, b.w.victim? = some wk → 0 < wk.weight) ∧ (∀ wk, b.sw.victim? = some wk → 0 < wk.weight)
+  /-- lock ownership: unconditional — it holds during and after a shutdown as well (`shutdown.wu_zero` takes and
+      releases `weight_used` within one action, so no client ever owns it across a schedule point) -/
   wuWorker : b.wuOwner = some .worker ↔ (∃ c e s i wk, b.w = .evStore c e s i wk)
   wuSweeper : b.wuOwner = some .sweeper ↔ (∃ n sh r i wk, b.sw = .store n sh r i wk)
   wuClients : ∀ i, b.wuOwner ≠ some (.client i) ∧ b.wuOwner ≠ some .consumer
@@ -171,6 +201,13 @@ structure BInv (b : BState) : Prop where
     (∀ u ∈ usedIds b, occ b u = 0 ∧ u < b.g.nextId) ∧
     (∀ id wk, b.g.adm.kw.get? id = some wk → id < b.g.nextId)
   maxFixed : b.g.adm.max = b.g.cfg.maxWeight
+  /-- a `shutdown()` that is past its compare-and-swap has set the flag -/
+  shutFlag : ∀ (i : Nat) (pc : CPc), b.cl[i]? = some pc → pc.afterCas = true → b.g.shutting = true
+  /-- the store read guards of `get_ref`: every guard belongs to a client standing at `pool.add` of a `get_ref(k)`
+      and is a guard on the shard of `k`; at most one guard per client; and a client at that position holds it -/
+  guards : (∀ p ∈ b.storeReaders, ∃ k v, b.cl[p.1]? = some (.refPool k v) ∧ p.2 = storeShardOf b k) ∧
+    b.storeReaders.Pairwise (fun p q => p.1 ≠ q.1) ∧
+    (∀ (i k v : Nat), b.cl[i]? = some (.refPool k v) → (i, storeShardOf b k) ∈ b.storeReaders)
 
 /-! ## 2  the actions as relations
 
@@ -211,7 +248,7 @@ inductive WTrans (b : BState) : BState → Prop where
   | recvDelete (k h q) : b.w = .recv → b.g.queue = (.delete k, h) :: q →
       WTrans b { b with g := { b.g with queue := q }, w := .delStore k h }
   | recvShutdown (h q) : b.w = .recv → b.g.queue = (.shutdown, h) :: q →
-      WTrans b { b with g := { b.g with queue := q, acks := setAck b.g.acks h .accepted }, w := .drain }
+      WTrans b { b with g := { b.g with queue := q, acks := setAck b.g.acks h .accepted, worker := .draining }, w := .drain }
   | drain (cmd h q) : b.w = .drain → b.g.queue = (cmd, h) :: q →
       WTrans b { b with g := { b.g with queue := q, acks := setAck b.g.acks h .shuttingDown }, w := .drain }
   | presentExists (c) : b.w = .present c → WTrans b (finishCmd b c.h (.rejected .keyAlreadyExists))
@@ -235,7 +272,7 @@ inductive WTrans (b : BState) : BState → Prop where
       WTrans b { b with w := .evSpace c e s }
   | evSub (c e s id wk) : b.w = .evSub c e s id wk → wuFree b .worker = true →
       WTrans b { b with g := { b.g with adm := { b.g.adm with used := b.g.adm.used - wk.weight } }, wuOwner := some .worker, w := .evStore c e s id wk }
-  | evStore (c e s id wk) : b.w = .evStore c e s id wk →
+  | evStore (c e s id wk) : b.w = .evStore c e s id wk → storeWritable b wk.key none = true →
       WTrans b { b with g := applyEvict b.g (id, wk.key, wk.weight), wuOwner := none, w := .evSpace c e s }
   | evSpace (c e s) : b.w = .evSpace c e s → wuFree b .worker = true →
       WTrans b { b with w := .fill c e s (b.g.adm.max - b.g.adm.used) }
@@ -247,11 +284,11 @@ inductive WTrans (b : BState) : BState → Prop where
       WTrans b { b with g := { b.g with adm := { b.g.adm with kw := b.g.adm.kw.set c.id { key := c.k, hash := c.hash, weight := c.w } } }, w := .add c }
   | add (c) : b.w = .add c → wuFree b .worker = true →
       WTrans b { b with g := { b.g with adm := { b.g.adm with used := b.g.adm.used + c.w }, stats := { b.g.stats with weightAdded := (b.g.stats.weightAdded + c.w.toNat) % u64Mod } }, w := .storePut c }
-  | storePutPlain (c) : b.w = .storePut c → c.ttl = none →
+  | storePutPlain (c) : b.w = .storePut c → c.ttl = none → storeWritable b c.k none = true →
       WTrans b (finishCmd { b with g := { b.g with store := b.g.store.set c.k { value := c.v, id := c.id, expiry := none, soft := false }, stats := { b.g.stats with keysAdded := b.g.stats.keysAdded + 1 } } } c.h .accepted)
-  | storePutPanic (c t) : b.w = .storePut c → c.ttl = some t →
+  | storePutPanic (c t) : b.w = .storePut c → c.ttl = some t → storeWritable b c.k none = true →
       WTrans b { b with w := .dead, g := { b.g with worker := .dead, queue := [] } }
-  | storePutTtl (c t e) : b.w = .storePut c → c.ttl = some t →
+  | storePutTtl (c t e) : b.w = .storePut c → c.ttl = some t → storeWritable b c.k none = true →
       WTrans b { b with g := { b.g with store := b.g.store.set c.k { value := c.v, id := c.id, expiry := some e, soft := false }, stats := { b.g.stats with keysAdded := b.g.stats.keysAdded + 1 } }, w := .ttlPut c e }
   | ttlPut (c e) : b.w = .ttlPut c e → ttlFree b (shardOf b.g.cfg e) = true →
       WTrans b (finishCmd { b with g := ttlPut b.g c.id e } c.h .accepted)
@@ -261,8 +298,8 @@ inductive WTrans (b : BState) : BState → Prop where
       WTrans b (finishCmd { b with g := { b.g with adm := { b.g.adm with used := b.g.adm.used + (w - wk.weight), kw := b.g.adm.kw.set id { wk with weight := w } }, stats := updateWeightStats { b.g.stats with keysUpdated := b.g.stats.keysUpdated + 1 } w wk.weight } } h .accepted)
   | updatePanic (id w h) : b.w = .update id w h → wuFree b .worker = true →
       WTrans b { b with w := .dead, g := { b.g with worker := .dead, queue := [] } }
-  | delStoreNone (k h) : b.w = .delStore k h → WTrans b (finishCmd b h (.rejected .keyDoesNotExist))
-  | delStoreSome (k h e) : b.w = .delStore k h → b.g.store.get? k = some e →
+  | delStoreNone (k h) : b.w = .delStore k h → storeWritable b k none = true → WTrans b (finishCmd b h (.rejected .keyDoesNotExist))
+  | delStoreSome (k h e) : b.w = .delStore k h → b.g.store.get? k = some e → storeWritable b k none = true →
       WTrans b { b with g := { b.g with store := b.g.store.del k, stats := { b.g.stats with keysDeleted := b.g.stats.keysDeleted + 1 } }, w := .delKw e.id e.expiry h }
   | delKwSome (id exp h wk) : b.w = .delKw id exp h → b.g.adm.kw.get? id = some wk →
       WTrans b { b with g := { b.g with adm := { b.g.adm with kw := b.g.adm.kw.del id } }, w := .delSub id wk exp h }
@@ -351,8 +388,13 @@ theorem workerAct_trans {b b' : BState} {o o' : Oracle} (h : workerAct b o = .ok
       simp only [Except.ok.injEq, Prod.mk.injEq] at h; obtain ⟨rfl, rfl⟩ := h
       exact .evSub c e s id wk hw hfree
   | evStore c e s id wk =>
-    simp only [workerAct, hw, Except.ok.injEq, Prod.mk.injEq] at h; obtain ⟨rfl, rfl⟩ := h
-    exact .evStore c e s id wk hw
+    simp only [workerAct, hw] at h
+    split at h
+    · cases h
+    · rename_i hwr
+      simp only [Bool.not_eq_true, Bool.not_eq_false'] at hwr
+      simp only [Except.ok.injEq, Prod.mk.injEq] at h; obtain ⟨rfl, rfl⟩ := h
+      exact .evStore c e s id wk hw hwr
   | evSpace c e s =>
     simp only [workerAct, hw] at h
     split at h
@@ -385,12 +427,16 @@ theorem workerAct_trans {b b' : BState} {o o' : Oracle} (h : workerAct b o = .ok
   | storePut c =>
     simp only [workerAct, hw] at h
     split at h
-    · simp only [Except.ok.injEq, Prod.mk.injEq] at h; obtain ⟨rfl, rfl⟩ := h
-      exact .storePutPlain c hw (by assumption)
-    · split at h
-      all_goals simp only [Except.ok.injEq, Prod.mk.injEq] at h; obtain ⟨rfl, rfl⟩ := h
-      · exact .storePutPanic c _ hw (by assumption)
-      · exact .storePutTtl c _ _ hw (by assumption)
+    · cases h
+    · rename_i hwr
+      simp only [Bool.not_eq_true, Bool.not_eq_false'] at hwr
+      split at h
+      · simp only [Except.ok.injEq, Prod.mk.injEq] at h; obtain ⟨rfl, rfl⟩ := h
+        exact .storePutPlain c hw (by assumption) hwr
+      · split at h
+        all_goals simp only [Except.ok.injEq, Prod.mk.injEq] at h; obtain ⟨rfl, rfl⟩ := h
+        · exact .storePutPanic c _ hw (by assumption) hwr
+        · exact .storePutTtl c _ _ hw (by assumption) hwr
   | ttlPut c e =>
     simp only [workerAct, hw] at h
     split at h
@@ -419,9 +465,13 @@ theorem workerAct_trans {b b' : BState} {o o' : Oracle} (h : workerAct b o = .ok
   | delStore k hh =>
     simp only [workerAct, hw] at h
     split at h
-    all_goals simp only [Except.ok.injEq, Prod.mk.injEq] at h; obtain ⟨rfl, rfl⟩ := h
-    · exact .delStoreNone k hh hw
-    · exact .delStoreSome k hh _ hw (by assumption)
+    · cases h
+    · rename_i hwr
+      simp only [Bool.not_eq_true, Bool.not_eq_false'] at hwr
+      split at h
+      all_goals simp only [Except.ok.injEq, Prod.mk.injEq] at h; obtain ⟨rfl, rfl⟩ := h
+      · exact .delStoreNone k hh hw hwr
+      · exact .delStoreSome k hh _ hw (by assumption) hwr
   | delKw id exp hh =>
     simp only [workerAct, hw] at h
     split at h
@@ -466,7 +516,7 @@ inductive STrans (b : BState) : BState → Prop where
       STrans b (sweepNext b now shard rest)
   | sub (now shard rest id wk) : wuFree b .sweeper = true → b.sw = .sub now shard rest id wk →
       STrans b { b with g := { b.g with adm := { b.g.adm with used := b.g.adm.used - wk.weight } }, wuOwner := some .sweeper, sw := .store now shard rest id wk }
-  | store (now shard rest id wk) : b.sw = .store now shard rest id wk →
+  | store (now shard rest id wk) : b.sw = .store now shard rest id wk → storeWritable b wk.key none = true →
       STrans b (sweepNext { b with g := applyEvict b.g (id, wk.key, wk.weight), wuOwner := none } now shard rest)
   | fin : b.sw = .fin → STrans b { b with sw := .begin, g := { b.g with sweeperAlive := b.g.sweeperKeep } }
 
@@ -505,15 +555,20 @@ theorem sweeperAct_trans {b b' : BState} {v : Option Nat} (h : sweeperAct b v = 
       simp only [Except.ok.injEq] at h; subst h
       exact .sub now shard rest id wk ha hs
   | store now shard rest id wk =>
-    simp only [sweeperAct, hs, Except.ok.injEq] at h; subst h
-    exact .store now shard rest id wk hs
+    simp only [sweeperAct, hs] at h
+    split at h
+    · cases h
+    · rename_i hwr
+      simp only [Bool.not_eq_true, Bool.not_eq_false'] at hwr
+      simp only [Except.ok.injEq] at h; subst h
+      exact .store now shard rest id wk hs hwr
   | fin =>
     simp only [sweeperAct, hs, Except.ok.injEq] at h; subst h
     exact .fin hs
 
 /-- client positions reached from `start` that carry nothing the invariant talks about -/
 def CPc.plain : CPc → Prop
-  | .delMark _ | .getStore _ | .weightRead | .upUpdate _ _ _ _ _ => True
+  | .delMark _ | .getStore _ | .weightRead | .upUpdate _ _ _ _ _ | .refStore _ | .shutCas => True
   | _ => False
 
 /-- the ways the tail of `put_or_update` can end -/
@@ -531,11 +586,17 @@ theorem upAfterIndex_spec (b : BState) (i id : Nat) (uw : Option Int) :
         exact Or.inr (Or.inl ⟨w, by omega, rfl⟩)
   · exact Or.inr (Or.inr rfl)
 
+/-- the client holds a store read guard -/
+def CPc.isRefPool : CPc → Bool
+  | .refPool _ _ => true
+  | _ => false
+
 /-- One action of client `i`, as a relation. -/
 inductive CTrans (b : BState) (i : Nat) : BState → Prop where
-  | finish (pc out) : b.cl[i]? = some pc → CTrans b i (finishCall b i out)
-  | finishStats (pc out st) : b.cl[i]? = some pc → CTrans b i (finishCall { b with g := { b.g with stats := st } } i out)
-  | spot (pc st) : b.cl[i]? = some pc → CTrans b i (spotFinish b i st)
+  | finish (pc out) : b.cl[i]? = some pc → pc.isRefPool = false → CTrans b i (finishCall b i out)
+  | finishStats (pc out st) : b.cl[i]? = some pc → pc.isRefPool = false →
+      CTrans b i (finishCall { b with g := { b.g with stats := st } } i out)
+  | spot (pc st) : b.cl[i]? = some pc → pc.isRefPool = false → CTrans b i (spotFinish b i st)
   | startPut (k v w ttl) : b.cl[i]? = some (.start (.putW k v w ttl)) → 0 < w → CTrans b i (setClient b i (.putPresent k v w ttl))
   | startPlain (r pc') : b.cl[i]? = some (.start r) → pc'.plain → CTrans b i (setClient b i pc')
   | putPresentOk (k v w ttl) : b.cl[i]? = some (.putPresent k v w ttl) → CTrans b i (setClient b i (.idNext k v w ttl))
@@ -543,16 +604,16 @@ inductive CTrans (b : BState) (i : Nat) : BState → Prop where
       CTrans b i (setClient { b with g := { b.g with nextId := b.g.nextId + 1 } } i (.send (match ttl with | some t => Cmd.putTtl b.g.nextId (b.g.cfg.hashOf k) w k v t | none => Cmd.put b.g.nextId (b.g.cfg.hashOf k) w k v)))
   | sendOk (cmd) : b.cl[i]? = some (.send cmd) →
       CTrans b i (finishCall { b with g := { b.g with queue := b.g.queue ++ [(cmd, some b.g.acks.length)], acks := b.g.acks ++ [.pending] } } i (.ack b.g.acks.length .pending))
-  | delMark (k) : b.cl[i]? = some (.delMark k) →
+  | delMark (k) : b.cl[i]? = some (.delMark k) → storeWritable b k (some i) = true →
       CTrans b i (setClient { b with g := { b.g with store := match b.g.store.get? k with | some e => b.g.store.set k { e with soft := true } | none => b.g.store } } i (.send (.delete k)))
   | getHit (k e) : b.cl[i]? = some (.getStore k) → b.g.store.get? k = some e → e.alive b.g.now = true →
       CTrans b i (setClient { b with g := { b.g with stats := { b.g.stats with hits := b.g.stats.hits + 1 } } } i (.getPool k e.value))
   | getPool (k v g1 o o') : b.cl[i]? = some (.getPool k v) → poolAdd b.g (b.g.cfg.hashOf k) o = .ok (g1, o') →
       CTrans b i (finishCall { b with g := g1 } i (.value (some v)))
   | upPut (k v w ttl rm val weight) : b.cl[i]? = some (.upUpdate k v w ttl rm) → 0 < weight →
-      CTrans b i (setClient b i (.idNext k val weight ttl))
+      storeWritable b k (some i) = true → CTrans b i (setClient b i (.idNext k val weight ttl))
   | upUpdate (k v w ttl rm e newExpiry uw) : b.cl[i]? = some (.upUpdate k v w ttl rm) → b.g.store.get? k = some e →
-      CTrans b i (setClient { b with g := { b.g with store := b.g.store.set k { e with expiry := newExpiry, value := v.getD e.value } } } i (.upWeightOf e.id uw e.expiry newExpiry))
+      storeWritable b k (some i) = true → CTrans b i (setClient { b with g := { b.g with store := b.g.store.set k { e with expiry := newExpiry, value := v.getD e.value } } } i (.upWeightOf e.id uw e.expiry newExpiry))
   | upWeightOfTtl (id uw old new pc') : b.cl[i]? = some (.upWeightOf id uw old new) →
       pc'.usedId? = some id → pc'.freshId? = none → pc'.pos → CTrans b i (setClient b i pc')
   | upAfterSame (id uw old new) : b.cl[i]? = some (.upWeightOf id uw old new) → CTrans b i (upAfterIndex b i id uw)
@@ -562,6 +623,28 @@ inductive CTrans (b : BState) (i : Nat) : BState → Prop where
       CTrans b i (upAfterIndex { b with g := ttlDelete b.g id e } i id uw)
   | upTtlRemove (id old new uw) : b.cl[i]? = some (.upTtlRemove id old new uw) → ttlFree b (shardOf b.g.cfg old) = true →
       CTrans b i (setClient { b with g := ttlDelete b.g id old } i (.upTtlInsert id new uw))
+  | refHit (k e) : b.cl[i]? = some (.refStore k) → b.g.store.get? k = some e → e.alive b.g.now = true →
+      CTrans b i (setClient { b with g := { b.g with stats := { b.g.stats with hits := b.g.stats.hits + 1 } }, storeReaders := (i, storeShardOf b k) :: b.storeReaders } i (.refPool k e.value))
+  | refPool (k v g1 o o') : b.cl[i]? = some (.refPool k v) → poolAdd b.g (b.g.cfg.hashOf k) o = .ok (g1, o') →
+      CTrans b i (finishCall { b with g := g1, storeReaders := b.storeReaders.filter (fun p => p.1 != i) } i (.value (some v)))
+  | shutCas : b.cl[i]? = some .shutCas → b.g.shutting = false →
+      CTrans b i (setClient { b with g := { b.g with shutting := true } } i .shutSendCmd)
+  | shutSendCmd : b.cl[i]? = some .shutSendCmd → b.g.queue.length < b.g.cfg.cmdCap →
+      CTrans b i (setClient { b with g := { b.g with queue := b.g.queue ++ [(.shutdown, none)] } } i .shutSendBuf)
+  /-- the steps of `shutdown()` that touch only the buffer queue, the two keep-running flags, the sketch or the
+      statistics: `cmd.send` to a dead worker, `buf.send_shutdown`, `consumer_flag`, `ticker_flag`, `af_clear`,
+      `stats_clear` -/
+  | shutLocal (pc pc' g') : b.cl[i]? = some pc → pc.afterCas = true → pc'.afterCas = true →
+      g' = { b.g with bufq := g'.bufq, consumerKeep := g'.consumerKeep, sweeperKeep := g'.sweeperKeep, lfu := g'.lfu, stats := g'.stats } →
+      CTrans b i (setClient { b with g := g' } i pc')
+  | shutStoreClear : b.cl[i]? = some .shutStoreClear → b.storeReaders.any (fun p => p.1 != i) = false →
+      CTrans b i (setClient { b with g := { b.g with store := [] } } i .shutKwClear)
+  | shutKwClear : b.cl[i]? = some .shutKwClear →
+      CTrans b i (setClient { b with g := { b.g with adm := { b.g.adm with kw := [] } } } i .shutWuZero)
+  | shutWuZero : b.cl[i]? = some .shutWuZero → wuFree b (.client i) = true →
+      CTrans b i (setClient { b with g := { b.g with adm := { b.g.adm with used := 0 } } } i .shutAfClear)
+  | shutTtlClear : b.cl[i]? = some .shutTtlClear → b.ttlOwner = none →
+      CTrans b i (finishCall { b with g := { b.g with ttl := [] } } i .none)
 
 theorem clientAct_trans {b b' : BState} {i : Nat} {o o' : Oracle} (h : clientAct b i o = .ok (b', o')) :
     CTrans b i b' := by
@@ -576,15 +659,17 @@ theorem clientAct_trans {b b' : BState} {i : Nat} {o o' : Oracle} (h : clientAct
       simp only [] at h
       split at h
       · cases r <;> simp only [Except.ok.injEq, Prod.mk.injEq] at h <;> obtain ⟨rfl, rfl⟩ := h
-        · exact .finish _ _ hpc
-        · exact .finish _ _ hpc
-        · exact .finish _ _ hpc
+        · exact .finish _ _ hpc rfl
+        · exact .finish _ _ hpc rfl
+        · exact .finish _ _ hpc rfl
         · exact .startPlain _ _ hpc trivial
-        · exact .finish _ _ hpc
+        · exact .finish _ _ hpc rfl
+        · exact .finish _ _ hpc rfl
+        · exact .startPlain _ _ hpc trivial
       · cases r <;> simp only [] at h
         · split at h
           all_goals simp only [Except.ok.injEq, Prod.mk.injEq] at h; obtain ⟨rfl, rfl⟩ := h
-          · exact .finish _ _ hpc
+          · exact .finish _ _ hpc rfl
           · exact .startPut _ _ _ _ hpc (by omega)
         all_goals simp only [Except.ok.injEq, Prod.mk.injEq] at h; obtain ⟨rfl, rfl⟩ := h
         all_goals exact .startPlain _ _ hpc trivial
@@ -592,7 +677,7 @@ theorem clientAct_trans {b b' : BState} {i : Nat} {o o' : Oracle} (h : clientAct
       simp only [] at h
       split at h
       all_goals simp only [Except.ok.injEq, Prod.mk.injEq] at h; obtain ⟨rfl, rfl⟩ := h
-      · exact .spot _ _ hpc
+      · exact .spot _ _ hpc rfl
       · exact .putPresentOk _ _ _ _ hpc
     | idNext k v w ttl =>
       simp only [Except.ok.injEq, Prod.mk.injEq] at h; obtain ⟨rfl, rfl⟩ := h
@@ -606,24 +691,29 @@ theorem clientAct_trans {b b' : BState} {i : Nat} {o o' : Oracle} (h : clientAct
         simp only [] at hs
         split at hs
         · simp only [Except.ok.injEq] at hs; subst hs
-          exact .finish _ _ hpc
+          exact .finish _ _ hpc rfl
         · split at hs
           · cases hs
           · simp only [Except.ok.injEq] at hs; subst hs
             exact .sendOk _ hpc
       · cases h
     | delMark k =>
-      simp only [Except.ok.injEq, Prod.mk.injEq] at h; obtain ⟨rfl, rfl⟩ := h
-      exact .delMark _ hpc
+      simp only [] at h
+      split at h
+      · cases h
+      · rename_i hwr
+        simp only [Bool.not_eq_true, Bool.not_eq_false'] at hwr
+        simp only [Except.ok.injEq, Prod.mk.injEq] at h; obtain ⟨rfl, rfl⟩ := h
+        exact .delMark _ hpc hwr
     | getStore k =>
       simp only [] at h
       split at h
       · split at h
         all_goals simp only [Except.ok.injEq, Prod.mk.injEq] at h; obtain ⟨rfl, rfl⟩ := h
         · exact .getHit _ _ hpc (by assumption) (by assumption)
-        · exact .finishStats _ _ _ hpc
+        · exact .finishStats _ _ _ hpc rfl
       · simp only [Except.ok.injEq, Prod.mk.injEq] at h; obtain ⟨rfl, rfl⟩ := h
-        exact .finishStats _ _ _ hpc
+        exact .finishStats _ _ _ hpc rfl
     | getPool k v =>
       simp only [] at h
       split at h
@@ -635,21 +725,25 @@ theorem clientAct_trans {b b' : BState} {i : Nat} {o o' : Oracle} (h : clientAct
       split at h
       · cases h
       · simp only [Except.ok.injEq, Prod.mk.injEq] at h; obtain ⟨rfl, rfl⟩ := h
-        exact .finish _ _ hpc
+        exact .finish _ _ hpc rfl
     | upUpdate k v w ttl rm =>
       simp only [] at h
       split at h
-      · split at h
+      · cases h
+      · rename_i hwr
+        simp only [Bool.not_eq_true, Bool.not_eq_false'] at hwr
+        split at h
+        · split at h
+          · split at h
+            all_goals simp only [Except.ok.injEq, Prod.mk.injEq] at h; obtain ⟨rfl, rfl⟩ := h
+            · exact .finish _ _ hpc rfl
+            · exact .upPut _ _ _ _ _ _ _ hpc (by omega) hwr
+          · simp only [Except.ok.injEq, Prod.mk.injEq] at h; obtain ⟨rfl, rfl⟩ := h
+            exact .finish _ _ hpc rfl
         · split at h
           all_goals simp only [Except.ok.injEq, Prod.mk.injEq] at h; obtain ⟨rfl, rfl⟩ := h
-          · exact .finish _ _ hpc
-          · exact .upPut _ _ _ _ _ _ _ hpc (by omega)
-        · simp only [Except.ok.injEq, Prod.mk.injEq] at h; obtain ⟨rfl, rfl⟩ := h
-          exact .finish _ _ hpc
-      · split at h
-        all_goals simp only [Except.ok.injEq, Prod.mk.injEq] at h; obtain ⟨rfl, rfl⟩ := h
-        · exact .finish _ _ hpc
-        · exact .upUpdate _ _ _ _ _ _ _ _ hpc (by assumption)
+          · exact .finish _ _ hpc rfl
+          · exact .upUpdate _ _ _ _ _ _ _ _ hpc (by assumption) hwr
     | upWeightOf id uw old new =>
       simp only [] at h
       split at h
@@ -690,6 +784,84 @@ theorem clientAct_trans {b b' : BState} {i : Nat} {o o' : Oracle} (h : clientAct
         simp only [Bool.not_eq_true, Bool.not_eq_false'] at ha
         simp only [Except.ok.injEq, Prod.mk.injEq] at h; obtain ⟨rfl, rfl⟩ := h
         exact .upAfterPut _ _ _ _ hpc rfl ha
+    | refStore k =>
+      simp only [] at h
+      split at h
+      · split at h
+        all_goals simp only [Except.ok.injEq, Prod.mk.injEq] at h; obtain ⟨rfl, rfl⟩ := h
+        · exact .refHit _ _ hpc (by assumption) (by assumption)
+        · exact .finishStats _ _ _ hpc rfl
+      · simp only [Except.ok.injEq, Prod.mk.injEq] at h; obtain ⟨rfl, rfl⟩ := h
+        exact .finishStats _ _ _ hpc rfl
+    | refPool k v =>
+      simp only [] at h
+      split at h
+      · simp only [Except.ok.injEq, Prod.mk.injEq] at h; obtain ⟨rfl, rfl⟩ := h
+        exact .refPool _ _ _ _ _ hpc (by assumption)
+      · cases h
+    | shutCas =>
+      simp only [] at h
+      split at h
+      all_goals simp only [Except.ok.injEq, Prod.mk.injEq] at h; obtain ⟨rfl, rfl⟩ := h
+      · exact .finish _ _ hpc rfl
+      · rename_i hsh
+        exact .shutCas hpc (by simpa using hsh)
+    | shutSendCmd =>
+      simp only [] at h
+      split at h
+      · simp only [Except.ok.injEq, Prod.mk.injEq] at h; obtain ⟨rfl, rfl⟩ := h
+        exact .shutLocal _ _ _ hpc rfl rfl rfl
+      · split at h
+        · cases h
+        · rename_i hq
+          simp only [Except.ok.injEq, Prod.mk.injEq] at h; obtain ⟨rfl, rfl⟩ := h
+          exact .shutSendCmd hpc (by omega)
+    | shutSendBuf =>
+      simp only [] at h
+      split at h
+      · simp only [Except.ok.injEq, Prod.mk.injEq] at h; obtain ⟨rfl, rfl⟩ := h
+        exact .shutLocal _ _ _ hpc rfl rfl rfl
+      · split at h
+        · cases h
+        · simp only [Except.ok.injEq, Prod.mk.injEq] at h; obtain ⟨rfl, rfl⟩ := h
+          exact .shutLocal _ _ _ hpc rfl rfl rfl
+    | shutConsumerFlag =>
+      simp only [Except.ok.injEq, Prod.mk.injEq] at h; obtain ⟨rfl, rfl⟩ := h
+      exact .shutLocal _ _ _ hpc rfl rfl rfl
+    | shutTickerFlag =>
+      simp only [Except.ok.injEq, Prod.mk.injEq] at h; obtain ⟨rfl, rfl⟩ := h
+      exact .shutLocal _ _ _ hpc rfl rfl rfl
+    | shutStoreClear =>
+      simp only [] at h
+      split at h
+      · cases h
+      · rename_i hr
+        simp only [Except.ok.injEq, Prod.mk.injEq] at h; obtain ⟨rfl, rfl⟩ := h
+        exact .shutStoreClear hpc (by simpa using hr)
+    | shutKwClear =>
+      simp only [Except.ok.injEq, Prod.mk.injEq] at h; obtain ⟨rfl, rfl⟩ := h
+      exact .shutKwClear hpc
+    | shutWuZero =>
+      simp only [] at h
+      split at h
+      · cases h
+      · rename_i ha
+        simp only [Bool.not_eq_true, Bool.not_eq_false'] at ha
+        simp only [Except.ok.injEq, Prod.mk.injEq] at h; obtain ⟨rfl, rfl⟩ := h
+        exact .shutWuZero hpc ha
+    | shutAfClear =>
+      simp only [Except.ok.injEq, Prod.mk.injEq] at h; obtain ⟨rfl, rfl⟩ := h
+      exact .shutLocal _ _ _ hpc rfl rfl rfl
+    | shutStatsClear =>
+      simp only [Except.ok.injEq, Prod.mk.injEq] at h; obtain ⟨rfl, rfl⟩ := h
+      exact .shutLocal _ _ _ hpc rfl rfl rfl
+    | shutTtlClear =>
+      simp only [] at h
+      split at h
+      · cases h
+      · rename_i ha
+        simp only [Except.ok.injEq, Prod.mk.injEq] at h; obtain ⟨rfl, rfl⟩ := h
+        exact .shutTtlClear hpc (by simpa using ha)
 
 /-! ## 3  frame facts -/
 
@@ -704,6 +876,8 @@ theorem clientAct_trans {b b' : BState} {i : Nat} {o o' : Oracle} (h : clientAct
 @[simp] theorem applyEvict_ttl (g : State) (e : Evicted) : (applyEvict g e).ttl = g.ttl := by
   obtain ⟨i, k, w⟩ := e; simp only [applyEvict]; split <;> rfl
 @[simp] theorem applyEvict_now (g : State) (e : Evicted) : (applyEvict g e).now = g.now := by
+  obtain ⟨i, k, w⟩ := e; simp only [applyEvict]; split <;> rfl
+@[simp] theorem applyEvict_shutting (g : State) (e : Evicted) : (applyEvict g e).shutting = g.shutting := by
   obtain ⟨i, k, w⟩ := e; simp only [applyEvict]; split <;> rfl
 theorem applyEvict_store (g : State) (e : Evicted) : (applyEvict g e).store = g.store.del e.2.1 := by
   obtain ⟨i, k, w⟩ := e
@@ -792,13 +966,15 @@ theorem lockF_strans {b b' : BState} (hi : LockF b) (h : STrans b b') : LockF b'
   all_goals simp [wuFree, lockOf, SPc.isStore, SPc.shard?, SPc.entryOk, *] at *
   all_goals assumption
 
-/-- a client action moves that client and touches neither the other threads' positions, the locks,
-    the admission part nor the configuration -/
+/-- a client action moves that client and touches neither the other threads' positions, the locks, the weight limit,
+    the configuration nor the map of keys to store shards -/
 theorem ctrans_frame {b b' : BState} {i : Nat} (h : CTrans b i b') :
-    b'.w = b.w ∧ b'.sw = b.sw ∧ b'.wuOwner = b.wuOwner ∧ b'.ttlOwner = b.ttlOwner ∧ b'.g.adm = b.g.adm ∧
-    b'.g.cfg = b.g.cfg := by
+    b'.w = b.w ∧ b'.sw = b.sw ∧ b'.wuOwner = b.wuOwner ∧ b'.ttlOwner = b.ttlOwner ∧ b'.g.adm.max = b.g.adm.max ∧
+    b'.g.cfg = b.g.cfg ∧ b'.storeShard = b.storeShard := by
   cases h
   case getPool hp => rw [poolAdd_frame hp]; simp [finishCall]
+  case refPool hp => rw [poolAdd_frame hp]; simp [finishCall]
+  case shutLocal hg => rw [hg]; simp [setClient]
   case upAfterSame => rcases upAfterIndex_spec b i _ _ with ⟨_, h⟩ | ⟨_, _, h⟩ | h <;> rw [h] <;> simp [finishCall, setClient, spotFinish]
   case upAfterPut id e uw _ _ _ =>
     rcases upAfterIndex_spec { b with g := ttlPut b.g id e } i id uw with ⟨_, h⟩ | ⟨_, _, h⟩ | h <;> rw [h] <;>
@@ -807,6 +983,80 @@ theorem ctrans_frame {b b' : BState} {i : Nat} (h : CTrans b i b') :
     rcases upAfterIndex_spec { b with g := ttlDelete b.g id e } i id uw with ⟨_, h⟩ | ⟨_, _, h⟩ | h <;> rw [h] <;>
       simp [finishCall, setClient, spotFinish, ttlDelete]
   all_goals simp [finishCall, setClient, spotFinish, ttlDelete]
+
+/-- the only client actions that touch the admission part are `shutdown.kw_clear` and `shutdown.wu_zero` -/
+theorem ctrans_adm {b b' : BState} {i : Nat} (h : CTrans b i b') :
+    b'.g.adm = b.g.adm ∨
+    (∃ pc, b.cl[i]? = some pc ∧ pc.afterCas = true ∧ (b'.g.adm.kw = b.g.adm.kw ∨ b'.g.adm.kw = [])) := by
+  cases h
+  case getPool hp => rw [poolAdd_frame hp]; simp [finishCall]
+  case refPool hp => rw [poolAdd_frame hp]; simp [finishCall]
+  case shutLocal hg => rw [hg]; simp [setClient]
+  case shutKwClear hpc => exact Or.inr ⟨_, hpc, rfl, Or.inr rfl⟩
+  case shutWuZero hpc _ => exact Or.inr ⟨_, hpc, rfl, Or.inl rfl⟩
+  case upAfterSame => rcases upAfterIndex_spec b i _ _ with ⟨_, h⟩ | ⟨_, _, h⟩ | h <;> rw [h] <;> simp [finishCall, setClient, spotFinish]
+  case upAfterPut id e uw _ _ _ =>
+    rcases upAfterIndex_spec { b with g := ttlPut b.g id e } i id uw with ⟨_, h⟩ | ⟨_, _, h⟩ | h <;> rw [h] <;>
+      simp [finishCall, setClient, spotFinish, ttlPut]
+  case upAfterDelete id e uw _ _ =>
+    rcases upAfterIndex_spec { b with g := ttlDelete b.g id e } i id uw with ⟨_, h⟩ | ⟨_, _, h⟩ | h <;> rw [h] <;>
+      simp [finishCall, setClient, spotFinish, ttlDelete]
+  all_goals simp [finishCall, setClient, spotFinish, ttlDelete]
+
+/-- no client action resets the shutdown flag -/
+theorem ctrans_shutting {b b' : BState} {i : Nat} (h : CTrans b i b') (hs : b.g.shutting = true) :
+    b'.g.shutting = true := by
+  cases h
+  case getPool hp => rw [poolAdd_frame hp]; simpa [finishCall] using hs
+  case refPool hp => rw [poolAdd_frame hp]; simpa [finishCall] using hs
+  case shutLocal hg => rw [hg]; simpa [setClient] using hs
+  case upAfterSame => rcases upAfterIndex_spec b i _ _ with ⟨_, h⟩ | ⟨_, _, h⟩ | h <;> rw [h] <;> simpa [finishCall, setClient, spotFinish] using hs
+  case upAfterPut id e uw _ _ _ =>
+    rcases upAfterIndex_spec { b with g := ttlPut b.g id e } i id uw with ⟨_, h⟩ | ⟨_, _, h⟩ | h <;> rw [h] <;>
+      simpa [finishCall, setClient, spotFinish, ttlPut] using hs
+  case upAfterDelete id e uw _ _ =>
+    rcases upAfterIndex_spec { b with g := ttlDelete b.g id e } i id uw with ⟨_, h⟩ | ⟨_, _, h⟩ | h <;> rw [h] <;>
+      simpa [finishCall, setClient, spotFinish, ttlDelete] using hs
+  all_goals simp [finishCall, setClient, spotFinish, ttlDelete, hs]
+
+/-- what a client action does to that client's position and to the store read guards -/
+theorem ctrans_cl {b b' : BState} {j : Nat} (h : CTrans b j b') :
+    ∃ pc pc', b.cl[j]? = some pc ∧ b'.cl = b.cl.set j pc' ∧
+      (pc'.afterCas = true → b'.g.shutting = true ∨ pc.afterCas = true) ∧
+      ((pc.isRefPool = false ∧ pc'.isRefPool = false ∧ b'.storeReaders = b.storeReaders) ∨
+       (∃ k v, pc = .refStore k ∧ pc' = .refPool k v ∧ b'.storeReaders = (j, storeShardOf b k) :: b.storeReaders) ∨
+       (∃ k v, pc = .refPool k v ∧ pc' = .idle ∧ b'.storeReaders = b.storeReaders.filter (fun p => p.1 != j))) := by
+  cases h
+  case upAfterSame id uw old new hpc =>
+    rcases upAfterIndex_spec b j id uw with ⟨_, h⟩ | ⟨_, _, h⟩ | h <;> rw [h] <;>
+      exact ⟨_, _, hpc, rfl, by simp [CPc.afterCas], Or.inl ⟨rfl, rfl, rfl⟩⟩
+  case upAfterPut pc id e uw hpc hu _ =>
+    have hr : pc.isRefPool = false := by cases pc <;> simp_all [CPc.usedId?, CPc.isRefPool]
+    rcases upAfterIndex_spec { b with g := ttlPut b.g id e } j id uw with ⟨_, h⟩ | ⟨_, _, h⟩ | h <;> rw [h] <;>
+      exact ⟨_, _, hpc, rfl, by simp [CPc.afterCas], Or.inl ⟨hr, rfl, rfl⟩⟩
+  case upAfterDelete id e uw hpc _ =>
+    rcases upAfterIndex_spec { b with g := ttlDelete b.g id e } j id uw with ⟨_, h⟩ | ⟨_, _, h⟩ | h <;> rw [h] <;>
+      exact ⟨_, _, hpc, rfl, by simp [CPc.afterCas], Or.inl ⟨rfl, rfl, rfl⟩⟩
+  case refHit k e hpc _ _ =>
+    exact ⟨_, _, hpc, rfl, by simp [CPc.afterCas], Or.inr (Or.inl ⟨k, e.value, rfl, rfl, rfl⟩)⟩
+  case refPool k v g1 o o' hpc hp =>
+    exact ⟨_, _, hpc, rfl, by simp [CPc.afterCas], Or.inr (Or.inr ⟨k, v, rfl, rfl, rfl⟩)⟩
+  case shutCas hpc _ => exact ⟨_, _, hpc, rfl, fun _ => Or.inl rfl, Or.inl ⟨rfl, rfl, rfl⟩⟩
+  case shutLocal pc pc' g' hpc h1 h2 hg =>
+    exact ⟨pc, pc', hpc, rfl, fun _ => Or.inr h1, Or.inl ⟨by cases pc <;> simp_all [CPc.afterCas, CPc.isRefPool],
+      by cases pc' <;> simp_all [CPc.afterCas, CPc.isRefPool], rfl⟩⟩
+  case finish pc out hpc hr => exact ⟨_, _, hpc, rfl, by simp [CPc.afterCas], Or.inl ⟨hr, rfl, rfl⟩⟩
+  case finishStats pc out st hpc hr => exact ⟨_, _, hpc, rfl, by simp [CPc.afterCas], Or.inl ⟨hr, rfl, rfl⟩⟩
+  case spot pc st hpc hr => exact ⟨_, _, hpc, rfl, by simp [CPc.afterCas], Or.inl ⟨hr, rfl, rfl⟩⟩
+  case startPlain r pc' hpc hp =>
+    exact ⟨_, _, hpc, rfl, by cases pc' <;> simp_all [CPc.plain, CPc.afterCas],
+      Or.inl ⟨rfl, by cases pc' <;> simp_all [CPc.plain, CPc.isRefPool], rfl⟩⟩
+  case upWeightOfTtl id uw old new pc' hpc hu _ _ =>
+    exact ⟨_, _, hpc, rfl, by cases pc' <;> simp_all [CPc.usedId?, CPc.afterCas],
+      Or.inl ⟨rfl, by cases pc' <;> simp_all [CPc.usedId?, CPc.isRefPool], rfl⟩⟩
+  all_goals first
+    | exact ⟨_, _, by assumption, rfl, by simp [CPc.afterCas], Or.inl ⟨rfl, rfl, rfl⟩⟩
+    | exact ⟨_, _, by assumption, rfl, fun _ => Or.inr rfl, Or.inl ⟨rfl, rfl, rfl⟩⟩
 
 theorem LockF.frame {b b' : BState} (hi : LockF b) (h1 : b'.w = b.w) (h2 : b'.sw = b.sw)
     (h3 : b'.wuOwner = b.wuOwner) (h4 : b'.ttlOwner = b.ttlOwner) : LockF b' := by
@@ -980,6 +1230,27 @@ theorem posInv_ctrans {b b' : BState} {i : Nat} (hi : PosInv b) (h : CTrans b i 
   | upAfterPut pc id e uw hpc _ _ => exact hi.upAfter rfl rfl rfl
   | upAfterDelete id e uw hpc _ => exact hi.upAfter rfl rfl rfl
   | upTtlRemove id old new uw hpc _ => exact hi.client rfl rfl rfl trivial
+  | refHit k e hpc _ _ => exact hi.client rfl rfl rfl trivial
+  | refPool k v g1 o o' hpc hp =>
+    refine hi.client ?_ rfl rfl trivial
+    rw [poolAdd_frame hp]; rfl
+  | shutCas hpc _ => exact hi.client rfl rfl rfl trivial
+  | shutSendCmd hpc _ =>
+    obtain ⟨h1, h2, h3, h4⟩ := hi
+    refine ⟨?_, getElem?_set_pos h2 trivial, h3, h4⟩
+    intro p hp
+    simp only [setClient, List.mem_append, List.mem_singleton] at hp
+    rcases hp with hp | rfl
+    · exact h1 p hp
+    · trivial
+  | shutLocal pc pc' g' hpc _ h2 hg =>
+    refine hi.client (pc' := pc') ?_ rfl rfl (by cases pc' <;> simp_all [CPc.afterCas, CPc.pos])
+    show g'.queue = b.g.queue
+    rw [hg]
+  | shutStoreClear hpc _ => exact hi.client rfl rfl rfl trivial
+  | shutKwClear hpc => exact hi.client rfl rfl rfl trivial
+  | shutWuZero hpc _ => exact hi.client rfl rfl rfl trivial
+  | shutTtlClear hpc _ => exact hi.client rfl rfl rfl trivial
 
 theorem PosInv.frame {b b' : BState} (hi : PosInv b) (hq : b'.g.queue = b.g.queue) (hw : b'.w = b.w)
     (hcl : b'.cl = b.cl) : PosInv b' := by
@@ -1065,15 +1336,18 @@ structure IdInv (b : BState) : Prop where
   pendW : ∀ f, b.w.pendId? = some f → b.g.adm.kw.get? f = none
   used : ∀ u ∈ usedIds b, occ b u = 0 ∧ u < b.g.nextId
   kwLt : ∀ id wk, b.g.adm.kw.get? id = some wk → id < b.g.nextId
-  addCharged : ∀ c, b.w = .add c → b.g.adm.kw.get? c.id = some { key := c.k, hash := c.hash, weight := c.w }
+  /-- while the cache is running (see `BAcct`) -/
+  addCharged : b.g.shutting = false →
+    ∀ c, b.w = .add c → b.g.adm.kw.get? c.id = some { key := c.k, hash := c.hash, weight := c.w }
 
 /-- Every action that creates no fresh id and only removes charges preserves `IdInv`. -/
-theorem IdInv.transfer {b b' : BState} (hi : IdInv b)
+theorem IdInv.transfer {b b' : BState} (hi : IdInv b) (hsh : b'.g.shutting = false → b.g.shutting = false)
     (hocc : ∀ f, occ b' f ≤ occ b f) (hqc : ∀ f, qc b' f ≤ qc b f) (hn : b.g.nextId ≤ b'.g.nextId)
     (hkw : ∀ f wk, b'.g.adm.kw.get? f = some wk → b.g.adm.kw.get? f = some wk)
     (hpend : ∀ f, b'.w.pendId? = some f → b.w.pendId? = some f ∨ 0 < qc b f)
     (hused : ∀ u ∈ usedIds b', u ∈ usedIds b ∨ (occ b' u = 0 ∧ 0 < occ b u))
-    (hadd : ∀ c, b'.w = .add c → b.w = .add c ∧ b'.g.adm.kw.get? c.id = b.g.adm.kw.get? c.id) : IdInv b' := by
+    (hadd : b'.g.shutting = false → ∀ c, b'.w = .add c → b.w = .add c ∧ b'.g.adm.kw.get? c.id = b.g.adm.kw.get? c.id) :
+    IdInv b' := by
   have hnone : ∀ f, b.g.adm.kw.get? f = none → b'.g.adm.kw.get? f = none := by
     intro f hf
     cases h : b'.g.adm.kw.get? f with
@@ -1099,9 +1373,17 @@ theorem IdInv.transfer {b b' : BState} (hi : IdInv b)
   · intro id wk h
     have := hi.kwLt id wk (hkw id wk h)
     omega
-  · intro c hc
-    obtain ⟨h1, h2⟩ := hadd c hc
-    rw [h2]; exact hi.addCharged c h1
+  · intro hs c hc
+    obtain ⟨h1, h2⟩ := hadd hs c hc
+    rw [h2]; exact hi.addCharged (hsh hs) c h1
+
+theorem wtrans_shutting {b b' : BState} (h : WTrans b b') : b'.g.shutting = b.g.shutting := by
+  cases h <;> simp [finishCmd, rejectCmd, ttlPut, ttlDelete]
+
+/-- the worker touches neither the clients, the store read guards nor the map of keys to store shards -/
+theorem wtrans_cl {b b' : BState} (h : WTrans b b') :
+    b'.cl = b.cl ∧ b'.storeReaders = b.storeReaders ∧ b'.storeShard = b.storeShard := by
+  cases h <;> simp [finishCmd, rejectCmd]
 
 theorem wtrans_occ {b b' : BState} (h : WTrans b b') (f : Nat) : occ b' f ≤ occ b f := by
   cases h
@@ -1202,7 +1484,7 @@ theorem idInv_wtrans {b b' : BState} (hi : IdInv b) (h : WTrans b b') : IdInv b'
       split at hg'
       · rename_i e; subst e; exact hi.freshLt _ hc1
       · exact hi.kwLt id wk hg'
-    · intro c' hc'
+    · intro _ c' hc'
       simp only [WPc.add.injEq] at hc'
       subst hc'
       show (b.g.adm.kw.set c.id _).get? c.id = _
@@ -1232,9 +1514,9 @@ theorem idInv_wtrans {b b' : BState} (hi : IdInv b) (h : WTrans b b') : IdInv b'
       split at hg''
       · rename_i e; subst e; exact hi.kwLt _ _ hg
       · exact hi.kwLt id' wk' hg''
-    · intro c' hc'; simp [finishCmd] at hc'
+    · intro _ c' hc'; simp [finishCmd] at hc'
   | _ =>
-    refine hi.transfer (wtrans_occ h0) (wtrans_qc h0) (by rw [wtrans_nextId h0]; exact Nat.le_refl _)
+    refine hi.transfer (fun hs => wtrans_shutting h0 ▸ hs) (wtrans_occ h0) (wtrans_qc h0) (by rw [wtrans_nextId h0]; exact Nat.le_refl _)
       (wtrans_kw h0 (by simp [*]) (by simp [finishCmd, *])) (wtrans_pend h0) ?_ ?_
     · intro u hu
       rcases wtrans_used h0 u hu with h | ⟨c, hw, rfl⟩
@@ -1242,7 +1524,7 @@ theorem idInv_wtrans {b b' : BState} (hi : IdInv b) (h : WTrans b b') : IdInv b'
       · have h1 := wtrans_storePut_occ h0 c hw
         have h2 := hi.occLe c.id
         exact Or.inr ⟨by omega, by omega⟩
-    · intro c hc
+    · intro _ c hc
       have := (wtrans_add h0 c hc).1
       simp_all
 
@@ -1258,6 +1540,14 @@ theorem qc_congr {b b' : BState} (hq : b'.g.queue = b.g.queue) (hcl : b'.cl = b.
 theorem strans_frame {b b' : BState} (h : STrans b b') :
     b'.w = b.w ∧ b'.cl = b.cl ∧ b'.g.queue = b.g.queue ∧ b'.g.nextId = b.g.nextId ∧ b'.g.cfg = b.g.cfg ∧
     b'.g.adm.max = b.g.adm.max := by
+  cases h
+  all_goals (try unfold sweepNext)
+  all_goals (try split)
+  all_goals simp
+
+/-- … nor the shutdown flag, the store read guards, the map of keys to store shards -/
+theorem strans_frame2 {b b' : BState} (h : STrans b b') :
+    b'.g.shutting = b.g.shutting ∧ b'.storeReaders = b.storeReaders ∧ b'.storeShard = b.storeShard := by
   cases h
   all_goals (try unfold sweepNext)
   all_goals (try split)
@@ -1305,9 +1595,10 @@ theorem strans_used {b b' : BState} (h : STrans b b') (u : Nat) (hu : u ∈ used
 
 theorem idInv_strans {b b' : BState} (hi : IdInv b) (h : STrans b b') : IdInv b' := by
   obtain ⟨hw, hcl, hq, hn, _, _⟩ := strans_frame h
-  refine hi.transfer (fun f => Nat.le_of_eq (occ_congr hq hcl hw f)) (fun f => Nat.le_of_eq (qc_congr hq hcl f))
+  refine hi.transfer (fun hs => (strans_frame2 h).1 ▸ hs) (fun f => Nat.le_of_eq (occ_congr hq hcl hw f))
+    (fun f => Nat.le_of_eq (qc_congr hq hcl f))
     (Nat.le_of_eq hn.symm) (strans_kw h) (fun f hf => Or.inl (hw ▸ hf)) (fun u hu => Or.inl (strans_used h u hu)) ?_
-  intro c hc
+  intro _ c hc
   rw [hw] at hc
   refine ⟨hc, strans_kw_other h c.id ?_⟩
   intro hu
@@ -1341,9 +1632,10 @@ theorem mem_usedIds_of_client {b : BState} {i : Nat} {pc : CPc} {u : Nat} (hpc :
 
 /-- a client action that creates no fresh id, leaves queue, id counter and charges alone, and keeps the used ids -/
 theorem IdInv.clientStep {b b' : BState} {i : Nat} {pc pc' : CPc} (hi : IdInv b) (hpc : b.cl[i]? = some pc)
-    (hq : b'.g.queue = b.g.queue) (hn : b'.g.nextId = b.g.nextId) (hkw : b'.g.adm.kw = b.g.adm.kw)
+    (hq : qIds b'.g.queue = qIds b.g.queue) (hn : b'.g.nextId = b.g.nextId) (hkw : b'.g.adm.kw = b.g.adm.kw)
     (hw : b'.w = b.w) (hcl : b'.cl = b.cl.set i pc') (hfresh : pc'.freshId? = none)
-    (hused : ∀ u ∈ usedIds b', u ∈ usedIds b) : IdInv b' := by
+    (hused : ∀ u ∈ usedIds b', u ∈ usedIds b)
+    (hsh : b'.g.shutting = false → b.g.shutting = false := by exact fun h => h) : IdInv b' := by
   have hc : ∀ f, (cIds b'.cl).count f ≤ (cIds b.cl).count f := by
     intro f
     have := count_filterMap_set CPc.freshId? b.cl i pc pc' hpc f
@@ -1351,33 +1643,40 @@ theorem IdInv.clientStep {b b' : BState} {i : Nat} {pc pc' : CPc} (hi : IdInv b)
     simp only [cIds, hcl]
     simp at this
     omega
-  refine hi.transfer ?_ ?_ (Nat.le_of_eq hn.symm) (by rw [hkw]; exact fun _ _ h => h) (fun f hf => Or.inl (hw ▸ hf))
-    (fun u hu => Or.inl (hused u hu)) (fun c hc => ⟨hw ▸ hc, by rw [hkw]⟩)
+  refine hi.transfer hsh ?_ ?_ (Nat.le_of_eq hn.symm) (by rw [hkw]; exact fun _ _ h => h) (fun f hf => Or.inl (hw ▸ hf))
+    (fun u hu => Or.inl (hused u hu)) (fun _ c hc => ⟨hw ▸ hc, by rw [hkw]⟩)
   · intro f; have := hc f; simp only [occ, hq, hw]; omega
   · intro f; have := hc f; simp only [qc, hq]; omega
 
 /-- … and that moreover leaves store, expiry index and sweeper alone -/
 theorem IdInv.clientLocal {b b' : BState} {i : Nat} {pc pc' : CPc} (hi : IdInv b) (hpc : b.cl[i]? = some pc)
-    (hq : b'.g.queue = b.g.queue) (hn : b'.g.nextId = b.g.nextId) (hkw : b'.g.adm.kw = b.g.adm.kw)
+    (hq : qIds b'.g.queue = qIds b.g.queue) (hn : b'.g.nextId = b.g.nextId) (hkw : b'.g.adm.kw = b.g.adm.kw)
     (hw : b'.w = b.w) (hcl : b'.cl = b.cl.set i pc') (hsw : b'.sw = b.sw) (hst : b'.g.store = b.g.store)
-    (httl : b'.g.ttl = b.g.ttl) (hfresh : pc'.freshId? = none) (hu : ∀ u, pc'.usedId? = some u → u ∈ usedIds b) :
+    (httl : b'.g.ttl = b.g.ttl) (hfresh : pc'.freshId? = none) (hu : ∀ u, pc'.usedId? = some u → u ∈ usedIds b)
+    (hsh : b'.g.shutting = false → b.g.shutting = false := by exact fun h => h) :
     IdInv b' :=
   hi.clientStep hpc hq hn hkw hw hcl hfresh
     (mem_usedIds_client hsw hw hcl (by rw [hst]; exact fun p hp => ⟨p, hp, rfl⟩) (by rw [httl]; exact fun p hp => Or.inl hp) hu)
+    hsh
 
 theorem IdInv.upAfter {b b0 : BState} {i id : Nat} {uw : Option Int} {pc : CPc} (hi : IdInv b)
     (hpc : b.cl[i]? = some pc) (hq : b0.g.queue = b.g.queue) (hn : b0.g.nextId = b.g.nextId)
     (hkw : b0.g.adm.kw = b.g.adm.kw) (hw : b0.w = b.w) (hcl : b0.cl = b.cl) (hsw : b0.sw = b.sw)
-    (hst : b0.g.store = b.g.store) (httl : ∀ p ∈ b0.g.ttl, p ∈ b.g.ttl ∨ p.1.2 ∈ usedIds b) :
+    (hst : b0.g.store = b.g.store) (httl : ∀ p ∈ b0.g.ttl, p ∈ b.g.ttl ∨ p.1.2 ∈ usedIds b)
+    (hsh : b0.g.shutting = b.g.shutting) :
     IdInv (upAfterIndex b0 i id uw) := by
+  have hq : qIds b0.g.queue = qIds b.g.queue := by rw [hq]
   have hs : ∀ p ∈ b0.g.store, ∃ q ∈ b.g.store, q.2.id = p.2.id := by rw [hst]; exact fun p hp => ⟨p, hp, rfl⟩
   rcases upAfterIndex_spec b0 i id uw with ⟨_, h⟩ | ⟨w, _, h⟩ | h <;> rw [h]
   · exact hi.clientStep (i := i) (pc' := .idle) hpc hq hn hkw hw (by simp [finishCall, hcl]) rfl
       (mem_usedIds_client (i := i) (pc' := .idle) hsw hw (by simp [finishCall, hcl]) hs httl (fun u h => by cases h))
+      (fun h => hsh ▸ h)
   · exact hi.clientStep (i := i) (pc' := .send (.updateWeight id w)) hpc hq hn hkw hw (by simp [setClient, hcl]) rfl
       (mem_usedIds_client (i := i) (pc' := .send (.updateWeight id w)) hsw hw (by simp [setClient, hcl]) hs httl (fun u h => by cases h))
-  · exact hi.clientStep (i := i) (pc' := .idle) hpc hq hn hkw hw (by simp [spotFinish, finishCall, hcl]) rfl
+      (fun h => hsh ▸ h)
+  · exact hi.clientStep (i := i) (pc' := .idle) hpc (by simpa [spotFinish, finishCall] using hq) hn hkw hw (by simp [spotFinish, finishCall, hcl]) rfl
       (mem_usedIds_client (i := i) (pc' := .idle) hsw hw (by simp [spotFinish, finishCall, hcl]) hs httl (fun u h => by cases h))
+      (fun h => hsh ▸ h)
 
 theorem AMap.mem_set' {α β : Type} [DecidableEq α] {m : AMap α β} {a : α} {v : β} {p : α × β}
     (h : p ∈ AMap.set m a v) : p = (a, v) ∨ p ∈ m := by
@@ -1444,6 +1743,24 @@ theorem idInv_idNext {b : BState} {i k v : Nat} {w : Int} {ttl : Option Nat} (hi
     omega
   · exact hi.addCharged
 
+/-- `shutdown.kw_clear`: nothing is charged any more; the flag is already set, so `addCharged` is void -/
+theorem idInv_kwClear {b : BState} {i : Nat} (hi : IdInv b) (hpc : b.cl[i]? = some .shutKwClear)
+    (hsh : b.g.shutting = true) :
+    IdInv (setClient { b with g := { b.g with adm := { b.g.adm with kw := [] } } } i .shutWuZero) := by
+  have hc : ∀ f, (cIds (b.cl.set i .shutWuZero)).count f = (cIds b.cl).count f := by
+    intro f
+    have := count_filterMap_set CPc.freshId? b.cl i _ .shutWuZero hpc f
+    simp only [CPc.freshId?, Option.toList_none, List.count_nil] at this
+    simp only [cIds]; omega
+  refine hi.transfer (fun h => by simp [setClient, hsh] at h) ?_ ?_ (Nat.le_refl _) (fun f wk h => by simp [setClient] at h)
+    (fun f hf => Or.inl hf) ?_ (fun h => by simp [setClient, hsh] at h)
+  · intro f; have := hc f; simp only [occ, setClient]; omega
+  · intro f; have := hc f; simp only [qc, setClient]; omega
+  · intro u hu
+    exact Or.inl (mem_usedIds_client (b := b)
+      (b' := setClient { b with g := { b.g with adm := { b.g.adm with kw := [] } } } i .shutWuZero) (i := i)
+      (pc' := .shutWuZero) rfl rfl rfl (fun p hp => ⟨p, hp, rfl⟩) (fun p hp => Or.inl hp) (fun u h => by cases h) u hu)
+
 /-- `cmd.send`: the command moves from the client to the queue -/
 theorem idInv_sendOk {b : BState} {i : Nat} {cmd : Cmd} (hi : IdInv b) (hpc : b.cl[i]? = some (.send cmd)) :
     IdInv (finishCall { b with g := { b.g with queue := b.g.queue ++ [(cmd, some b.g.acks.length)], acks := b.g.acks ++ [.pending] } } i (.ack b.g.acks.length .pending)) := by
@@ -1455,7 +1772,7 @@ theorem idInv_sendOk {b : BState} {i : Nat} {cmd : Cmd} (hi : IdInv b) (hpc : b.
   have hq : ∀ f, (qIds (b.g.queue ++ [(cmd, some b.g.acks.length)])).count f
       = (qIds b.g.queue).count f + (cmdId? cmd).toList.count f := by
     intro f; simp [qIds_append, qIds_cons, List.count_append]
-  refine hi.transfer ?_ ?_ (Nat.le_refl _) (fun _ _ h => h) (fun f hf => Or.inl hf) ?_ (fun c hc => ⟨hc, rfl⟩)
+  refine hi.transfer (fun h => h) ?_ ?_ (Nat.le_refl _) (fun _ _ h => h) (fun f hf => Or.inl hf) ?_ (fun _ c hc => ⟨hc, rfl⟩)
   · intro f; have := hc f; have := hq f; simp only [occ, finishCall]; omega
   · intro f; have := hc f; have := hq f; simp only [qc, finishCall]; omega
   · intro u hu
@@ -1467,7 +1784,9 @@ theorem idInv_sendOk {b : BState} {i : Nat} {cmd : Cmd} (hi : IdInv b) (hpc : b.
     · exact fun p hp => Or.inl hp
     · exact fun u h => by cases h
 
-theorem idInv_ctrans {b b' : BState} {i : Nat} (hi : IdInv b) (h : CTrans b i b') : IdInv b' := by
+theorem idInv_ctrans {b b' : BState} {i : Nat} (hi : IdInv b)
+    (hsf : ∀ (i : Nat) (pc : CPc), b.cl[i]? = some pc → pc.afterCas = true → b.g.shutting = true)
+    (h : CTrans b i b') : IdInv b' := by
   cases h with
   | finish pc out hpc => exact hi.clientLocal hpc rfl rfl rfl rfl rfl rfl rfl rfl rfl (fun u h => by cases h)
   | finishStats pc out st hpc => exact hi.clientLocal hpc rfl rfl rfl rfl rfl rfl rfl rfl rfl (fun u h => by cases h)
@@ -1494,7 +1813,32 @@ theorem idInv_ctrans {b b' : BState} {i : Nat} (hi : IdInv b) (h : CTrans b i b'
   | getPool k v g1 o o' hpc hp =>
     have hf := poolAdd_frame hp
     exact hi.clientLocal (pc' := .idle) hpc (by rw [hf]; rfl) (by rw [hf]; rfl) (by rw [hf]; rfl) rfl rfl rfl
-      (by rw [hf]; rfl) (by rw [hf]; rfl) rfl (fun u h => by cases h)
+      (by rw [hf]; rfl) (by rw [hf]; rfl) rfl (fun u h => by cases h) (by rw [hf]; exact fun h => h)
+  | refHit k e hpc _ _ => exact hi.clientLocal hpc rfl rfl rfl rfl rfl rfl rfl rfl rfl (fun u h => by cases h)
+  | refPool k v g1 o o' hpc hp =>
+    have hf := poolAdd_frame hp
+    exact hi.clientLocal (pc' := .idle) hpc (by rw [hf]; rfl) (by rw [hf]; rfl) (by rw [hf]; rfl) rfl rfl rfl
+      (by rw [hf]; rfl) (by rw [hf]; rfl) rfl (fun u h => by cases h) (by rw [hf]; exact fun h => h)
+  | shutCas hpc _ =>
+    exact hi.clientLocal hpc rfl rfl rfl rfl rfl rfl rfl rfl rfl (fun u h => by cases h)
+      (fun h => by simp [setClient] at h)
+  | shutSendCmd hpc _ =>
+    exact hi.clientLocal hpc (by simp [setClient, qIds_append, qIds_cons, cmdId?]) rfl rfl rfl rfl rfl rfl rfl rfl
+      (fun u h => by cases h)
+  | shutLocal pc pc' g' hpc _ h2 hg =>
+    exact hi.clientLocal (pc' := pc') hpc (by show qIds g'.queue = _; rw [hg]) (by show g'.nextId = _; rw [hg])
+      (by show g'.adm.kw = _; rw [hg]) rfl rfl rfl (by show g'.store = _; rw [hg]) (by show g'.ttl = _; rw [hg])
+      (by cases pc' <;> simp_all [CPc.afterCas, CPc.freshId?])
+      (fun u h => by cases pc' <;> simp_all [CPc.afterCas, CPc.usedId?])
+      (by show g'.shutting = false → _; rw [hg]; exact fun h => h)
+  | shutStoreClear hpc _ =>
+    exact hi.clientStep hpc rfl rfl rfl rfl rfl rfl
+      (mem_usedIds_client rfl rfl rfl (fun p hp => by cases hp) (fun p hp => Or.inl hp) (fun u h => by cases h))
+  | shutKwClear hpc => exact idInv_kwClear hi hpc (hsf i _ hpc rfl)
+  | shutWuZero hpc _ => exact hi.clientLocal hpc rfl rfl rfl rfl rfl rfl rfl rfl rfl (fun u h => by cases h)
+  | shutTtlClear hpc _ =>
+    exact hi.clientStep hpc rfl rfl rfl rfl rfl rfl
+      (mem_usedIds_client rfl rfl rfl (fun p hp => ⟨p, hp, rfl⟩) (fun p hp => by cases hp) (fun u h => by cases h))
   | upPut k v w ttl rm val weight hpc hw =>
     exact hi.clientLocal hpc rfl rfl rfl rfl rfl rfl rfl rfl rfl (fun u h => by cases h)
   | upUpdate k v w ttl rm e ne uw hpc he =>
@@ -1515,15 +1859,15 @@ theorem idInv_ctrans {b b' : BState} {i : Nat} (hi : IdInv b) (h : CTrans b i b'
     rw [hu] at hu'
     cases hu'
     exact mem_usedIds_of_client hpc rfl
-  | upAfterSame id uw old new hpc => exact hi.upAfter hpc rfl rfl rfl rfl rfl rfl rfl (fun p hp => Or.inl hp)
+  | upAfterSame id uw old new hpc => exact hi.upAfter hpc rfl rfl rfl rfl rfl rfl rfl (fun p hp => Or.inl hp) rfl
   | upAfterPut pc id e uw hpc hu _ =>
-    refine hi.upAfter hpc rfl rfl rfl rfl rfl rfl rfl ?_
+    refine hi.upAfter hpc rfl rfl rfl rfl rfl rfl rfl ?_ rfl
     intro p hp
     rcases AMap.mem_set' hp with rfl | hp
     · exact Or.inr (mem_usedIds_of_client hpc hu)
     · exact Or.inl hp
   | upAfterDelete id e uw hpc _ =>
-    exact hi.upAfter hpc rfl rfl rfl rfl rfl rfl rfl (fun p hp => Or.inl (AMap.mem_del' hp))
+    exact hi.upAfter hpc rfl rfl rfl rfl rfl rfl rfl (fun p hp => Or.inl (AMap.mem_del' hp)) rfl
   | upTtlRemove id old new uw hpc _ =>
     refine hi.clientStep hpc rfl rfl rfl rfl rfl rfl
       (mem_usedIds_client rfl rfl rfl (fun p hp => ⟨p, hp, rfl⟩) (fun p hp => Or.inl (AMap.mem_del' hp)) ?_)
@@ -1534,11 +1878,11 @@ theorem idInv_ctrans {b b' : BState} {i : Nat} (hi : IdInv b) (h : CTrans b i b'
 
 theorem IdInv.frame {b b' : BState} (hi : IdInv b) (hq : b'.g.queue = b.g.queue) (hcl : b'.cl = b.cl)
     (hw : b'.w = b.w) (hsw : b'.sw = b.sw) (hn : b'.g.nextId = b.g.nextId) (hkw : b'.g.adm.kw = b.g.adm.kw)
-    (hst : b'.g.store = b.g.store) (httl : b'.g.ttl = b.g.ttl) : IdInv b' := by
+    (hst : b'.g.store = b.g.store) (httl : b'.g.ttl = b.g.ttl) (hsh : b'.g.shutting = b.g.shutting) : IdInv b' := by
   have hu : usedIds b' = usedIds b := by simp [usedIds, hcl, hw, hsw, hst, httl]
-  refine hi.transfer (fun f => Nat.le_of_eq (occ_congr hq hcl hw f)) (fun f => Nat.le_of_eq (qc_congr hq hcl f))
+  refine hi.transfer (fun h => hsh ▸ h) (fun f => Nat.le_of_eq (occ_congr hq hcl hw f)) (fun f => Nat.le_of_eq (qc_congr hq hcl f))
     (Nat.le_of_eq hn.symm) (by rw [hkw]; exact fun _ _ h => h) (fun f hf => Or.inl (hw ▸ hf))
-    (fun u h => Or.inl (hu ▸ h)) (fun c hc => ⟨hw ▸ hc, by rw [hkw]⟩)
+    (fun u h => Or.inl (hu ▸ h)) (fun _ c hc => ⟨hw ▸ hc, by rw [hkw]⟩)
 
 theorem idInv_issue {b b' : BState} {i : Nat} {r : Req} (hi : IdInv b) (h : issue b i r = .ok b') : IdInv b' := by
   unfold issue at h
@@ -1568,16 +1912,20 @@ theorem idInv_init (cfg : Cfg) (now : Nat) (seeds : List Nat) (clients : Nat) :
   · intro u hu'
     simp [usedIds, BState.init, State.init, hu, SPc.ids, WPc.usedId?] at hu'
   · intro id wk h; simp [BState.init, State.init] at h
-  · intro c h; simp [BState.init] at h
+  · intro _ c h; simp [BState.init] at h
 
-/-! ## 7  the accounting identity -/
+/-! ## 7  the accounting identity
 
-structure SumInv (b : BState) : Prop where
+  `KwInv` holds at every state; `AcctInv` (the identity and the stale free space) while the cache is running. -/
+
+structure KwInv (b : BState) : Prop where
   kwNoDup : AMap.NoDup b.g.adm.kw
   positive : ∀ id wk, b.g.adm.kw.get? id = some wk → 0 < wk.weight
-  sum : b.g.adm.used = sumW b.g.adm.kw - pendingAdd b + pendingSub b
   wvictim : ∀ wk, b.w.victim? = some wk → 0 < wk.weight
   svictim : ∀ wk, b.sw.victim? = some wk → 0 < wk.weight
+
+structure AcctInv (b : BState) : Prop where
+  sum : b.g.adm.used = sumW b.g.adm.kw - pendingAdd b + pendingSub b
   stale : ∀ space, b.w.space? = some space → space ≤ b.g.adm.max - b.g.adm.used
 
 theorem positive_del {kw : AMap Nat WKey} (h : ∀ id wk, kw.get? id = some wk → 0 < wk.weight) (x : Nat) :
@@ -1596,32 +1944,50 @@ theorem positive_set {kw : AMap Nat WKey} (h : ∀ id wk, kw.get? id = some wk 
   · cases hg; exact hv
   · exact h id wk hg
 
-theorem sumInv_wtrans {b b' : BState} (hs : SumInv b) (hp : PosInv b) (hi : IdInv b) (h : WTrans b b') :
-    SumInv b' := by
-  obtain ⟨h1, h2, h3, h4, h5, h6⟩ := hs
+theorem kwInv_wtrans {b b' : BState} (hs : KwInv b) (hp : PosInv b) (h : WTrans b b') : KwInv b' := by
+  obtain ⟨h1, h2, h4, h5⟩ := hs
   cases h
   case evRemoveSome c e s victim wk hw hg =>
-    refine ⟨AMap.noDup_del h1 _, positive_del h2 _, ?_, ?_, h5, ?_⟩
-    · simp [pendingAdd, pendingSub, hw, sumW_del h1 hg] at h3 ⊢; omega
-    · simp [WPc.victim?]; exact h2 _ _ hg
-    · simp [WPc.space?]
+    refine ⟨AMap.noDup_del h1 _, positive_del h2 _, ?_, h5⟩
+    simp [WPc.victim?]; exact h2 _ _ hg
   case delKwSome id exp hh wk hw hg =>
-    refine ⟨AMap.noDup_del h1 _, positive_del h2 _, ?_, ?_, h5, ?_⟩
-    · simp [pendingAdd, pendingSub, hw, sumW_del h1 hg] at h3 ⊢; omega
-    · simp [WPc.victim?]; exact h2 _ _ hg
-    · simp [WPc.space?]
+    refine ⟨AMap.noDup_del h1 _, positive_del h2 _, ?_, h5⟩
+    simp [WPc.victim?]; exact h2 _ _ hg
   case insert c hw =>
     have hcw : 0 < c.w := hp.wcmd c (by simp [WPc.cmd?, hw])
-    have hnone : b.g.adm.kw.get? c.id = none := hi.pendW c.id (by simp [WPc.pendId?, hw])
-    refine ⟨AMap.noDup_set h1 _ _, positive_set h2 _ _ hcw, ?_, ?_, h5, ?_⟩
-    · simp [pendingAdd, pendingSub, hw, sumW_set, sumW_del_none hnone] at h3 ⊢; omega
-    · simp [WPc.victim?]
-    · simp [WPc.space?]
+    refine ⟨AMap.noDup_set h1 _ _, positive_set h2 _ _ hcw, ?_, h5⟩
+    simp [WPc.victim?]
   case updateApplied id w hh wk hw hfree hg =>
     have hcw : 0 < w := hp.wupd w (by simp [WPc.updW?, hw])
-    refine ⟨AMap.noDup_set h1 _ _, positive_set h2 _ _ hcw, ?_, ?_, h5, ?_⟩
+    refine ⟨AMap.noDup_set h1 _ _, positive_set h2 _ _ hcw, ?_, h5⟩
+    simp [finishCmd, WPc.victim?]
+  all_goals constructor
+  all_goals (try simp only [finishCmd, rejectCmd, ttlPut, ttlDelete, applyEvict_adm])
+  all_goals (try assumption)
+  all_goals simp [WPc.victim?, *] at *
+  all_goals (try assumption)
+
+theorem acctInv_wtrans {b b' : BState} (hk : KwInv b) (hs : AcctInv b) (hi : IdInv b) (h : WTrans b b') :
+    AcctInv b' := by
+  obtain ⟨h1, h2, h4, h5⟩ := hk
+  obtain ⟨h3, h6⟩ := hs
+  cases h
+  case evRemoveSome c e s victim wk hw hg =>
+    refine ⟨?_, ?_⟩
+    · simp [pendingAdd, pendingSub, hw, sumW_del h1 hg] at h3 ⊢; omega
+    · simp [WPc.space?]
+  case delKwSome id exp hh wk hw hg =>
+    refine ⟨?_, ?_⟩
+    · simp [pendingAdd, pendingSub, hw, sumW_del h1 hg] at h3 ⊢; omega
+    · simp [WPc.space?]
+  case insert c hw =>
+    have hnone : b.g.adm.kw.get? c.id = none := hi.pendW c.id (by simp [WPc.pendId?, hw])
+    refine ⟨?_, ?_⟩
+    · simp [pendingAdd, pendingSub, hw, sumW_set, sumW_del_none hnone] at h3 ⊢; omega
+    · simp [WPc.space?]
+  case updateApplied id w hh wk hw hfree hg =>
+    refine ⟨?_, ?_⟩
     · simp [pendingAdd, pendingSub, hw, finishCmd, sumW_set, sumW_del h1 hg] at h3 ⊢; omega
-    · simp [finishCmd, WPc.victim?]
     · simp [finishCmd, WPc.space?]
   all_goals constructor
   all_goals (try simp only [finishCmd, rejectCmd, ttlPut, ttlDelete, applyEvict_adm])
@@ -1630,13 +1996,27 @@ theorem sumInv_wtrans {b b' : BState} (hs : SumInv b) (hp : PosInv b) (hi : IdIn
   all_goals (try assumption)
   all_goals omega
 
-theorem sumInv_strans {b b' : BState} (hs : SumInv b) (h : STrans b b') : SumInv b' := by
-  obtain ⟨h1, h2, h3, h4, h5, h6⟩ := hs
+theorem kwInv_strans {b b' : BState} (hs : KwInv b) (h : STrans b b') : KwInv b' := by
+  obtain ⟨h1, h2, h4, h5⟩ := hs
   cases h
   case kwRemoveSome now shard rest id wk hg hsw =>
-    refine ⟨AMap.noDup_del h1 _, positive_del h2 _, ?_, h4, ?_, h6⟩
-    · simp [pendingAdd, pendingSub, hsw, sumW_del h1 hg] at h3 ⊢; omega
-    · simp [SPc.victim?]; exact h2 _ _ hg
+    refine ⟨AMap.noDup_del h1 _, positive_del h2 _, h4, ?_⟩
+    simp [SPc.victim?]; exact h2 _ _ hg
+  all_goals (try unfold sweepNext)
+  all_goals (try split)
+  all_goals constructor
+  all_goals (try simp only [applyEvict_adm])
+  all_goals (try assumption)
+  all_goals simp [SPc.victim?, *] at *
+  all_goals (try assumption)
+
+theorem acctInv_strans {b b' : BState} (hk : KwInv b) (hs : AcctInv b) (h : STrans b b') : AcctInv b' := by
+  obtain ⟨h1, h2, h4, h5⟩ := hk
+  obtain ⟨h3, h6⟩ := hs
+  cases h
+  case kwRemoveSome now shard rest id wk hg hsw =>
+    refine ⟨?_, h6⟩
+    simp [pendingAdd, pendingSub, hsw, sumW_del h1 hg] at h3 ⊢; omega
   all_goals (try unfold sweepNext)
   all_goals (try split)
   all_goals constructor
@@ -1646,92 +2026,276 @@ theorem sumInv_strans {b b' : BState} (hs : SumInv b) (h : STrans b b') : SumInv
   all_goals (try assumption)
   all_goals first | omega | (intro space hsp; have := h6 space hsp; omega)
 
-/-- whoever leaves the admission part and the positions of worker and sweeper alone keeps `SumInv` -/
-theorem SumInv.frame {b b' : BState} (hs : SumInv b) (hadm : b'.g.adm = b.g.adm) (hw : b'.w = b.w) (hsw : b'.sw = b.sw) :
-    SumInv b' := by
-  obtain ⟨h1, h2, h3, h4, h5, h6⟩ := hs
-  refine ⟨by rw [hadm]; exact h1, by rw [hadm]; exact h2, ?_, by rw [hw]; exact h4, by rw [hsw]; exact h5,
-    by rw [hw, hadm]; exact h6⟩
+/-- whoever leaves the charges (or clears them all) and the positions of worker and sweeper alone keeps `KwInv` -/
+theorem KwInv.frame {b b' : BState} (hs : KwInv b) (hkw : b'.g.adm.kw = b.g.adm.kw ∨ b'.g.adm.kw = [])
+    (hw : b'.w = b.w) (hsw : b'.sw = b.sw) : KwInv b' := by
+  obtain ⟨h1, h2, h4, h5⟩ := hs
+  rcases hkw with hkw | hkw
+  · exact ⟨by rw [hkw]; exact h1, by rw [hkw]; exact h2, by rw [hw]; exact h4, by rw [hsw]; exact h5⟩
+  · exact ⟨by rw [hkw]; exact AMap.noDup_nil, by rw [hkw]; intro id wk h; simp at h, by rw [hw]; exact h4,
+      by rw [hsw]; exact h5⟩
+
+/-- whoever leaves the admission part and the positions of worker and sweeper alone keeps `AcctInv` -/
+theorem AcctInv.frame {b b' : BState} (hs : AcctInv b) (hadm : b'.g.adm = b.g.adm) (hw : b'.w = b.w) (hsw : b'.sw = b.sw) :
+    AcctInv b' := by
+  obtain ⟨h3, h6⟩ := hs
+  refine ⟨?_, by rw [hw, hadm]; exact h6⟩
   simp only [pendingAdd, pendingSub, hadm, hw, hsw] at h3 ⊢
   exact h3
 
-theorem sumInv_init (cfg : Cfg) (now : Nat) (seeds : List Nat) (clients : Nat) :
-    SumInv (BState.init cfg now seeds clients) := by
-  refine ⟨AMap.noDup_nil, ?_, ?_, ?_, ?_, ?_⟩ <;>
-    simp [BState.init, State.init, pendingAdd, pendingSub, WPc.victim?, SPc.victim?, WPc.space?]
+theorem kwInv_init (cfg : Cfg) (now : Nat) (seeds : List Nat) (clients : Nat) :
+    KwInv (BState.init cfg now seeds clients) := by
+  refine ⟨AMap.noDup_nil, ?_, ?_, ?_⟩ <;>
+    simp [BState.init, State.init, WPc.victim?, SPc.victim?]
+
+theorem acctInv_init (cfg : Cfg) (now : Nat) (seeds : List Nat) (clients : Nat) :
+    AcctInv (BState.init cfg now seeds clients) := by
+  refine ⟨?_, ?_⟩ <;>
+    simp [BState.init, State.init, pendingAdd, pendingSub, WPc.space?]
+
+/-! ## 7a  the shutdown flag -/
+
+/-- a `shutdown()` past its compare-and-swap has set the flag -/
+def ShutF (b : BState) : Prop :=
+  ∀ (i : Nat) (pc : CPc), b.cl[i]? = some pc → pc.afterCas = true → b.g.shutting = true
+
+theorem ShutF.frame {b b' : BState} (hs : ShutF b) (hcl : b'.cl = b.cl) (hsh : b'.g.shutting = b.g.shutting) : ShutF b' := by
+  intro i pc h1 h2
+  rw [hsh]; exact hs i pc (hcl ▸ h1) h2
+
+theorem ShutF.client {b b' : BState} {i : Nat} {pc' : CPc} (hs : ShutF b) (hcl : b'.cl = b.cl.set i pc')
+    (hmono : b.g.shutting = true → b'.g.shutting = true) (hnew : pc'.afterCas = true → b'.g.shutting = true) :
+    ShutF b' := by
+  intro j pc hj hpc
+  rw [hcl, List.getElem?_set] at hj
+  split at hj
+  · split at hj
+    · cases hj; exact hnew hpc
+    · cases hj
+  · exact hmono (hs j pc hj hpc)
+
+theorem shutF_ctrans {b b' : BState} {i : Nat} (hs : ShutF b) (h : CTrans b i b') : ShutF b' := by
+  obtain ⟨pc, pc', hpc, hcl, hnew, _⟩ := ctrans_cl h
+  refine hs.client hcl (ctrans_shutting h) ?_
+  intro ha
+  rcases hnew ha with h' | h'
+  · exact h'
+  · exact ctrans_shutting h (hs i pc hpc h')
+
+/-! ## 7b  the store read guards of `get_ref` -/
+
+structure GuardInv (b : BState) : Prop where
+  owner : ∀ p ∈ b.storeReaders, ∃ k v, b.cl[p.1]? = some (.refPool k v) ∧ p.2 = storeShardOf b k
+  one : b.storeReaders.Pairwise (fun p q => p.1 ≠ q.1)
+  held : ∀ (i k v : Nat), b.cl[i]? = some (.refPool k v) → (i, storeShardOf b k) ∈ b.storeReaders
+
+theorem storeShardOf_congr {b b' : BState} (h : b'.storeShard = b.storeShard) (k : Nat) :
+    storeShardOf b' k = storeShardOf b k := by
+  simp [storeShardOf, h]
+
+theorem GuardInv.frame {b b' : BState} (hg : GuardInv b) (hcl : b'.cl = b.cl) (hr : b'.storeReaders = b.storeReaders)
+    (hs : b'.storeShard = b.storeShard) : GuardInv b' := by
+  obtain ⟨h1, h2, h3⟩ := hg
+  refine ⟨?_, by rw [hr]; exact h2, ?_⟩
+  · intro p hp
+    rw [hr] at hp
+    obtain ⟨k, v, ha, hb⟩ := h1 p hp
+    exact ⟨k, v, by rw [hcl]; exact ha, by rw [storeShardOf_congr hs]; exact hb⟩
+  · intro i k v hi
+    rw [hr, storeShardOf_congr hs]
+    exact h3 i k v (hcl ▸ hi)
+
+/-- client `i` moves between two positions that hold no guard; the guards stay -/
+theorem GuardInv.client {b b' : BState} {i : Nat} {pc pc' : CPc} (hg : GuardInv b) (hpc : b.cl[i]? = some pc)
+    (hn : pc.isRefPool = false) (hn' : pc'.isRefPool = false) (hcl : b'.cl = b.cl.set i pc')
+    (hr : b'.storeReaders = b.storeReaders) (hs : b'.storeShard = b.storeShard) : GuardInv b' := by
+  obtain ⟨h1, h2, h3⟩ := hg
+  refine ⟨?_, by rw [hr]; exact h2, ?_⟩
+  · intro p hp
+    rw [hr] at hp
+    obtain ⟨k, v, ha, hb⟩ := h1 p hp
+    have hne : i ≠ p.1 := by
+      intro e; subst e
+      rw [hpc] at ha; cases ha
+      simp [CPc.isRefPool] at hn
+    exact ⟨k, v, by rw [hcl, List.getElem?_set_ne hne]; exact ha, by rw [storeShardOf_congr hs]; exact hb⟩
+  · intro j k v hj
+    rw [hcl, List.getElem?_set] at hj
+    split at hj
+    · split at hj
+      · cases hj; simp [CPc.isRefPool] at hn'
+      · cases hj
+    · rw [hr, storeShardOf_congr hs]
+      exact h3 j k v hj
+
+theorem guardInv_ctrans {b b' : BState} {i : Nat} (hg : GuardInv b) (h : CTrans b i b') : GuardInv b' := by
+  have hs : b'.storeShard = b.storeShard := (ctrans_frame h).2.2.2.2.2.2
+  obtain ⟨pc, pc', hpc, hcl, _, hcase⟩ := ctrans_cl h
+  have hlt : i < b.cl.length := by
+    rcases Nat.lt_or_ge i b.cl.length with h | h
+    · exact h
+    · rw [List.getElem?_eq_none h] at hpc; cases hpc
+  rcases hcase with ⟨hn, hn', hr⟩ | ⟨k, v, rfl, rfl, hr⟩ | ⟨k, v, rfl, rfl, hr⟩
+  · exact hg.client hpc hn hn' hcl hr hs
+  · -- `store.get` of `get_ref` hits: the guard is taken
+    obtain ⟨h1, h2, h3⟩ := hg
+    have hfresh : ∀ p ∈ b.storeReaders, i ≠ p.1 := by
+      intro p hp e; subst e
+      obtain ⟨_, _, ha, _⟩ := h1 p hp
+      rw [hpc] at ha; cases ha
+    refine ⟨?_, ?_, ?_⟩
+    · intro p hp
+      rw [hr, List.mem_cons] at hp
+      rcases hp with rfl | hp
+      · exact ⟨k, v, by rw [hcl, List.getElem?_set_self hlt], by rw [storeShardOf_congr hs]⟩
+      · obtain ⟨k', v', ha, hb⟩ := h1 p hp
+        exact ⟨k', v', by rw [hcl, List.getElem?_set_ne (hfresh p hp)]; exact ha, by rw [storeShardOf_congr hs]; exact hb⟩
+    · rw [hr, List.pairwise_cons]
+      exact ⟨fun p hp => hfresh p hp, h2⟩
+    · intro j k' v' hj
+      rw [hcl, List.getElem?_set] at hj
+      rw [hr, storeShardOf_congr hs]
+      split at hj
+      · rename_i e; subst e
+        cases hj; exact List.mem_cons_self
+      · exact List.mem_cons_of_mem _ (h3 j k' v' hj)
+  · -- `pool.add` of `get_ref`: the call returns, the guard is dropped
+    obtain ⟨h1, h2, h3⟩ := hg
+    refine ⟨?_, ?_, ?_⟩
+    · intro p hp
+      rw [hr, List.mem_filter] at hp
+      obtain ⟨hp, hne⟩ := hp
+      have hne : i ≠ p.1 := by intro e; subst e; simp at hne
+      obtain ⟨k', v', ha, hb⟩ := h1 p hp
+      exact ⟨k', v', by rw [hcl, List.getElem?_set_ne hne]; exact ha, by rw [storeShardOf_congr hs]; exact hb⟩
+    · rw [hr]; exact h2.filter _
+    · intro j k' v' hj
+      rw [hcl, List.getElem?_set] at hj
+      rw [hr, storeShardOf_congr hs, List.mem_filter]
+      split at hj
+      · cases hj
+      · rename_i hne
+        exact ⟨h3 j k' v' hj, by simpa using fun e => hne e.symm⟩
+
+theorem guardInv_init (cfg : Cfg) (now : Nat) (seeds : List Nat) (clients : Nat) (shardMap : List (Nat × Nat)) :
+    GuardInv { BState.init cfg now seeds clients with storeShard := shardMap } := by
+  refine ⟨by simp [BState.init], by simp [BState.init], ?_⟩
+  intro i k v h
+  simp only [BState.init, List.getElem?_replicate] at h
+  split at h <;> cases h
+
+theorem shutF_init (cfg : Cfg) (now : Nat) (seeds : List Nat) (clients : Nat) (shardMap : List (Nat × Nat)) :
+    ShutF { BState.init cfg now seeds clients with storeShard := shardMap } := by
+  intro i pc h ha
+  simp only [BState.init, List.getElem?_replicate] at h
+  split at h
+  · cases h; simp [CPc.afterCas] at ha
+  · cases h
 
 /-! ## 8  `BInv`: assembly -/
 
 theorem binv_iff {b : BState} :
-    BInv b ↔ LockF b ∧ PosInv b ∧ IdInv b ∧ SumInv b ∧ b.g.adm.max = b.g.cfg.maxWeight := by
+    BInv b ↔ LockF b ∧ PosInv b ∧ IdInv b ∧ KwInv b ∧ (b.g.shutting = false → AcctInv b) ∧
+      b.g.adm.max = b.g.cfg.maxWeight ∧ ShutF b ∧ GuardInv b := by
   constructor
   · intro h
-    refine ⟨LockF.of h.wuWorker h.wuSweeper h.wuClients h.ttlSweeper h.sweepEntry, ?_, ?_, ?_, h.maxFixed⟩
+    refine ⟨LockF.of h.wuWorker h.wuSweeper h.wuClients h.ttlSweeper h.sweepEntry, ?_, ?_, ?_, ?_, h.maxFixed,
+      h.shutFlag, ⟨h.guards.1, h.guards.2.1, h.guards.2.2⟩⟩
     · refine ⟨h.cmdsPositive.1, h.cmdsPositive.2.1, h.cmdsPositive.2.2.1, ?_⟩
       intro w hw
       cases hb : b.w <;> simp [hb, WPc.updW?] at hw
       subst hw
       exact h.cmdsPositive.2.2.2 _ _ _ hb
     · exact ⟨h.freshIds.1, h.freshIds.2.1, h.freshIds.2.2.1, h.freshIds.2.2.2.1, h.freshIds.2.2.2.2.1,
-        h.freshIds.2.2.2.2.2, h.addCharged⟩
-    · exact ⟨h.kwNoDup, h.positive, h.sum, h.pendingPos.2.2.1, h.pendingPos.2.2.2, h.staleSpace⟩
-  · intro ⟨hl, hp, hi, hs, hm⟩
-    refine ⟨hs.kwNoDup, hs.positive, hs.sum, ⟨?_, ?_, hs.wvictim, hs.svictim⟩, hi.addCharged, hs.stale, hl.wuWorker,
+        h.freshIds.2.2.2.2.2, fun hs => (h.acct hs).addCharged⟩
+    · exact ⟨h.kwNoDup, h.positive, h.pendingPos.2.2.1, h.pendingPos.2.2.2⟩
+    · exact fun hs => ⟨(h.acct hs).sum, (h.acct hs).staleSpace⟩
+  · intro ⟨hl, hp, hi, hk, hs, hm, hsf, hg⟩
+    refine ⟨hk.kwNoDup, hk.positive, fun hsh => ⟨(hs hsh).sum, hi.addCharged hsh, (hs hsh).stale⟩,
+      ⟨?_, ?_, hk.wvictim, hk.svictim⟩, hl.wuWorker,
       hl.wuSweeper, hl.wuClients, hl.ttlSweeper, hl.sweepEntry, ⟨hp.queue, hp.clients, hp.wcmd, ?_⟩,
-      ⟨hi.occLe, hi.freshLt, hi.pendQC, hi.pendW, hi.used, hi.kwLt⟩, hm⟩
+      ⟨hi.occLe, hi.freshLt, hi.pendQC, hi.pendW, hi.used, hi.kwLt⟩, hm, hsf, ⟨hg.owner, hg.one, hg.held⟩⟩
     · intro c hc; exact hp.wcmd c (by simp [hc, WPc.cmd?])
     · intro c hc
       exact ⟨hp.wcmd c (by simp [hc, WPc.cmd?]), hi.pendW c.id (by simp [hc, WPc.pendId?])⟩
     · intro id w hh hc; exact hp.wupd w (by simp [hc, WPc.updW?])
 
-theorem binv_init (cfg : Cfg) (now : Nat) (seeds : List Nat) (clients : Nat) :
-    BInv (BState.init cfg now seeds clients) :=
-  binv_iff.mpr ⟨lockF_init cfg now seeds clients, posInv_init cfg now seeds clients, idInv_init cfg now seeds clients,
-    sumInv_init cfg now seeds clients, rfl⟩
+theorem binv_init (cfg : Cfg) (now : Nat) (seeds : List Nat) (clients : Nat) (shardMap : List (Nat × Nat)) :
+    BInv { BState.init cfg now seeds clients with storeShard := shardMap } :=
+  binv_iff.mpr ⟨(lockF_init cfg now seeds clients).frame rfl rfl rfl rfl,
+    (posInv_init cfg now seeds clients).frame rfl rfl rfl,
+    (idInv_init cfg now seeds clients).frame rfl rfl rfl rfl rfl rfl rfl rfl rfl,
+    (kwInv_init cfg now seeds clients).frame (Or.inl rfl) rfl rfl,
+    fun _ => (acctInv_init cfg now seeds clients).frame rfl rfl rfl, rfl,
+    shutF_init cfg now seeds clients shardMap, guardInv_init cfg now seeds clients shardMap⟩
 
 theorem binv_workerAct {b b' : BState} {o o' : Oracle} (hb : BInv b) (h : workerAct b o = .ok (b', o')) : BInv b' := by
-  obtain ⟨hl, hp, hi, hs, hm⟩ := binv_iff.mp hb
+  obtain ⟨hl, hp, hi, hk, hs, hm, hsf, hg⟩ := binv_iff.mp hb
   have ht := workerAct_trans h
-  exact binv_iff.mpr ⟨lockF_wtrans hl ht, posInv_wtrans hp ht, idInv_wtrans hi ht, sumInv_wtrans hs hp hi ht,
-    by rw [wtrans_max ht, wtrans_cfg ht]; exact hm⟩
+  obtain ⟨hcl, hr, hss⟩ := wtrans_cl ht
+  have hsh := wtrans_shutting ht
+  exact binv_iff.mpr ⟨lockF_wtrans hl ht, posInv_wtrans hp ht, idInv_wtrans hi ht, kwInv_wtrans hk hp ht,
+    fun h' => acctInv_wtrans hk (hs (hsh ▸ h')) hi ht,
+    by rw [wtrans_max ht, wtrans_cfg ht]; exact hm, hsf.frame hcl hsh, hg.frame hcl hr hss⟩
 
 theorem binv_sweeperAct {b b' : BState} {v : Option Nat} (hb : BInv b) (h : sweeperAct b v = .ok b') : BInv b' := by
-  obtain ⟨hl, hp, hi, hs, hm⟩ := binv_iff.mp hb
+  obtain ⟨hl, hp, hi, hk, hs, hm, hsf, hg⟩ := binv_iff.mp hb
   have ht := sweeperAct_trans h
-  obtain ⟨_, _, _, _, hcfg, hmax⟩ := strans_frame ht
-  exact binv_iff.mpr ⟨lockF_strans hl ht, posInv_strans hp ht, idInv_strans hi ht, sumInv_strans hs ht,
-    by rw [hmax, hcfg]; exact hm⟩
+  obtain ⟨_, hcl, _, _, hcfg, hmax⟩ := strans_frame ht
+  obtain ⟨hsh, hr, hss⟩ := strans_frame2 ht
+  exact binv_iff.mpr ⟨lockF_strans hl ht, posInv_strans hp ht, idInv_strans hi ht, kwInv_strans hk ht,
+    fun h' => acctInv_strans hk (hs (hsh ▸ h')) ht,
+    by rw [hmax, hcfg]; exact hm, hsf.frame hcl hsh, hg.frame hcl hr hss⟩
 
 theorem binv_clientAct {b b' : BState} {i : Nat} {o o' : Oracle} (hb : BInv b) (h : clientAct b i o = .ok (b', o')) :
     BInv b' := by
-  obtain ⟨hl, hp, hi, hs, hm⟩ := binv_iff.mp hb
+  obtain ⟨hl, hp, hi, hk, hs, hm, hsf, hg⟩ := binv_iff.mp hb
   have ht := clientAct_trans h
-  obtain ⟨hw, hsw, hwu, httl, hadm, hcfg⟩ := ctrans_frame ht
-  exact binv_iff.mpr ⟨hl.frame hw hsw hwu httl, posInv_ctrans hp ht, idInv_ctrans hi ht, hs.frame hadm hw hsw,
-    by rw [hadm, hcfg]; exact hm⟩
+  obtain ⟨hw, hsw, hwu, httl, hmax, hcfg, _⟩ := ctrans_frame ht
+  refine binv_iff.mpr ⟨hl.frame hw hsw hwu httl, posInv_ctrans hp ht, idInv_ctrans hi hsf ht, ?_, ?_,
+    by rw [hmax, hcfg]; exact hm, shutF_ctrans hsf ht, guardInv_ctrans hg ht⟩
+  · rcases ctrans_adm ht with hadm | ⟨_, _, _, hkw⟩
+    · exact hk.frame (Or.inl (by rw [hadm])) hw hsw
+    · exact hk.frame hkw hw hsw
+  · intro hsh'
+    have hsh : b.g.shutting = false := by
+      cases hb' : b.g.shutting with
+      | false => rfl
+      | true => rw [ctrans_shutting ht hb'] at hsh'; cases hsh'
+    rcases ctrans_adm ht with hadm | ⟨pc, hpc, ha, _⟩
+    · exact (hs hsh).frame hadm hw hsw
+    · rw [hsf i pc hpc ha] at hsh; cases hsh
 
 theorem binv_issue {b b' : BState} {i : Nat} {r : Req} (hb : BInv b) (h : issue b i r = .ok b') : BInv b' := by
-  obtain ⟨hl, hp, hi, hs, hm⟩ := binv_iff.mp hb
+  obtain ⟨hl, hp, hi, hk, hs, hm, hsf, hg⟩ := binv_iff.mp hb
   have hp' := posInv_issue hp h
   have hi' := idInv_issue hi h
   unfold issue at h
   split at h
-  · simp only [Except.ok.injEq] at h; subst h
-    exact binv_iff.mpr ⟨hl.frame rfl rfl rfl rfl, hp', hi', hs.frame rfl rfl rfl, hm⟩
+  · rename_i hpc
+    simp only [Except.ok.injEq] at h; subst h
+    exact binv_iff.mpr ⟨hl.frame rfl rfl rfl rfl, hp', hi', hk.frame (Or.inl rfl) rfl rfl,
+      fun h' => (hs h').frame rfl rfl rfl, hm,
+      hsf.client (i := i) (pc' := .start r) rfl (fun h => h) (fun h => by simp [CPc.afterCas] at h),
+      hg.client (i := i) (pc' := .start r) hpc rfl rfl rfl rfl rfl⟩
   · cases h
 
 theorem binv_consumer {b : BState} {g' : State} {out : Out} {o o' : Oracle} (hb : BInv b)
     (h : consumerStep b.g o = .ok (g', out, o')) : BInv { b with g := g' } := by
-  obtain ⟨hl, hp, hi, hs, hm⟩ := binv_iff.mp hb
+  obtain ⟨hl, hp, hi, hk, hs, hm, hsf, hg⟩ := binv_iff.mp hb
   have hf := consumerStep_frame h
-  exact binv_iff.mpr ⟨hl.frame rfl rfl rfl rfl, hp.frame (by rw [hf]) rfl rfl,
-    hi.frame (by rw [hf]) rfl rfl rfl (by rw [hf]) (by rw [hf]) (by rw [hf]) (by rw [hf]),
-    hs.frame (by rw [hf]) rfl rfl, by rw [hf]; exact hm⟩
+  have hsh : g'.shutting = b.g.shutting := by rw [hf]
+  exact binv_iff.mpr ⟨hl.frame rfl rfl rfl rfl, hp.frame (by show g'.queue = _; rw [hf]) rfl rfl,
+    hi.frame (by show g'.queue = _; rw [hf]) rfl rfl rfl (by show g'.nextId = _; rw [hf])
+      (by show g'.adm.kw = _; rw [hf]) (by show g'.store = _; rw [hf]) (by show g'.ttl = _; rw [hf]) hsh,
+    hk.frame (Or.inl (by show g'.adm.kw = _; rw [hf])) rfl rfl,
+    fun h' => (hs (hsh ▸ h')).frame (by show g'.adm = _; rw [hf]) rfl rfl,
+    by show g'.adm.max = g'.cfg.maxWeight; rw [hf]; exact hm, hsf.frame rfl hsh, hg.frame rfl rfl rfl⟩
 
 theorem binv_advance {b : BState} (d : Nat) (hb : BInv b) : BInv { b with g := { b.g with now := b.g.now + d } } := by
-  obtain ⟨hl, hp, hi, hs, hm⟩ := binv_iff.mp hb
-  exact binv_iff.mpr ⟨hl.frame rfl rfl rfl rfl, hp.frame rfl rfl rfl, hi.frame rfl rfl rfl rfl rfl rfl rfl rfl,
-    hs.frame rfl rfl rfl, hm⟩
+  obtain ⟨hl, hp, hi, hk, hs, hm, hsf, hg⟩ := binv_iff.mp hb
+  exact binv_iff.mpr ⟨hl.frame rfl rfl rfl rfl, hp.frame rfl rfl rfl, hi.frame rfl rfl rfl rfl rfl rfl rfl rfl rfl,
+    hk.frame (Or.inl rfl) rfl rfl, fun h' => (hs h').frame rfl rfl rfl, hm, hsf.frame rfl rfl, hg.frame rfl rfl rfl⟩
 
 /-- every atomic action of every thread preserves the invariant -/
 theorem binv_step {b b' : BState} {a : Act} {o o' : Oracle} (hb : BInv b) (h : stepB b a o = .ok (b', o')) :
@@ -1768,8 +2332,85 @@ theorem binv_step {b b' : BState} {a : Act} {o o' : Oracle} (hb : BInv b) (h : s
 theorem binv_reach {cfg : Cfg} {now : Nat} {seeds : List Nat} {clients : Nat} {b : BState}
     (h : Reach cfg now seeds clients b) : BInv b := by
   induction h with
-  | init => exact binv_init cfg now seeds clients
+  | init shardMap => exact binv_init cfg now seeds clients shardMap
   | step _ hs ih => exact binv_step ih hs
+
+/-! ## 9  the shutdown flag is monotone, the shard map is constant -/
+
+/-- The shutdown flag is never reset: no action of any thread takes it from `true` back to `false`. -/
+theorem stepB_shutting_mono {b b' : BState} {a : Act} {o o' : Oracle} (h : stepB b a o = .ok (b', o'))
+    (hs : b.g.shutting = true) : b'.g.shutting = true := by
+  cases a with
+  | issue i r =>
+    simp only [stepB] at h
+    split at h
+    · rename_i b1 hi
+      simp only [Except.ok.injEq, Prod.mk.injEq] at h; obtain ⟨rfl, rfl⟩ := h
+      unfold issue at hi
+      split at hi
+      · simp only [Except.ok.injEq] at hi; subst hi; exact hs
+      · cases hi
+    · cases h
+  | client i => exact ctrans_shutting (clientAct_trans h) hs
+  | worker => rw [wtrans_shutting (workerAct_trans h)]; exact hs
+  | sweeper v =>
+    simp only [stepB] at h
+    split at h
+    · rename_i b1 hs'
+      simp only [Except.ok.injEq, Prod.mk.injEq] at h; obtain ⟨rfl, rfl⟩ := h
+      rw [(strans_frame2 (sweeperAct_trans hs')).1]; exact hs
+    · cases h
+  | consumer =>
+    simp only [stepB] at h
+    split at h
+    · rename_i g' out o1 hc
+      simp only [Except.ok.injEq, Prod.mk.injEq] at h; obtain ⟨rfl, rfl⟩ := h
+      show g'.shutting = true
+      rw [consumerStep_frame hc]; exact hs
+    · cases h
+  | advance d =>
+    simp only [stepB, Except.ok.injEq, Prod.mk.injEq] at h; obtain ⟨rfl, rfl⟩ := h
+    exact hs
+
+/-- contrapositive: a state that is still running was reached through running states only -/
+theorem stepB_running_before {b b' : BState} {a : Act} {o o' : Oracle} (h : stepB b a o = .ok (b', o'))
+    (hs : b'.g.shutting = false) : b.g.shutting = false := by
+  cases hb : b.g.shutting with
+  | false => rfl
+  | true => rw [stepB_shutting_mono h hb] at hs; cases hs
+
+/-- The map of keys to store shards is a configuration input: no action changes it. -/
+theorem stepB_storeShard {b b' : BState} {a : Act} {o o' : Oracle} (h : stepB b a o = .ok (b', o')) :
+    b'.storeShard = b.storeShard := by
+  cases a with
+  | issue i r =>
+    simp only [stepB] at h
+    split at h
+    · rename_i b1 hi
+      simp only [Except.ok.injEq, Prod.mk.injEq] at h; obtain ⟨rfl, rfl⟩ := h
+      unfold issue at hi
+      split at hi
+      · simp only [Except.ok.injEq] at hi; subst hi; rfl
+      · cases hi
+    · cases h
+  | client i => exact (ctrans_frame (clientAct_trans h)).2.2.2.2.2.2
+  | worker => exact (wtrans_cl (workerAct_trans h)).2.2
+  | sweeper v =>
+    simp only [stepB] at h
+    split at h
+    · rename_i b1 hs'
+      simp only [Except.ok.injEq, Prod.mk.injEq] at h; obtain ⟨rfl, rfl⟩ := h
+      exact (strans_frame2 (sweeperAct_trans hs')).2.2
+    · cases h
+  | consumer =>
+    simp only [stepB] at h
+    split at h
+    · simp only [Except.ok.injEq, Prod.mk.injEq] at h; obtain ⟨rfl, rfl⟩ := h
+      rfl
+    · cases h
+  | advance d =>
+    simp only [stepB, Except.ok.injEq, Prod.mk.injEq] at h; obtain ⟨rfl, rfl⟩ := h
+    rfl
 
 end B
 end Cached
